@@ -1364,3 +1364,1474 @@ Proof.
         split; [eapply is_prefix_trans; [apply is_prefix_app|exact Hpre]|].
         split; assumption.
 Qed.
+
+(* ============================================================================================== *)
+(* Part 6.  The plain shift to an absent destination, end to end, and its agreement with the       *)
+(* documented edit Spec.PC08.edit_cs.                                                              *)
+
+Lemma fpath_prefix_mono p : forall q pre (f : forest) PP PQ,
+  is_prefix p q = true -> fpath pre p f = Some PP -> fpath pre q f = Some PQ -> pfx PP PQ = true.
+Proof.
+  induction p as [|i p IH]; intros q pre f PP PQ Hpq HP HQ.
+  - cbn in HP. inversion HP; subst. destruct (fpath_ext _ _ _ _ HQ) as [rest [-> _]]. apply pfx_app.
+  - destruct q as [|j q]; [discriminate|]. rewrite is_prefix_cons in Hpq. apply andb_true_iff in Hpq as [E Hpq].
+    apply Nat.eqb_eq in E. subst j. cbn [fpath] in HP, HQ. destruct (nth_error f i) as [t|]; [|discriminate].
+    eapply IH; eassumption.
+Qed.
+
+Lemma t_sub_rows t p x PX :
+  wf_t t -> p <> [] -> tget t p = Some x -> tpath t p = Some PX ->
+  exists P0, PX = P0 ++ [tname x] /\ sub_rows (rows t) PX = rows_from P0 x.
+Proof.
+  intros Hwf Hp Hx HP. destruct (fget_rows _ _ _ _ _ (wf_t_kids _ Hwf) Hx HP) as [P0 [HP0 Hsub]].
+  exists P0. split; [exact HP0|]. rewrite rows_eq. unfold sub_rows in *. cbn [filter]. unfold under at 1. cbn [rpath fst].
+  destruct (tpath_ext _ _ _ HP) as [rest [HPe Hl]].
+  rewrite pfx_long by (rewrite HPe; cbn [length]; destruct p; [congruence|cbn in Hl; lia]).
+  exact Hsub.
+Qed.
+
+Lemma t_has_child t q Q ks c :
+  wf_t t -> tpath t q = Some Q -> fkids q (tkids t) = Some ks ->
+  has (rows t) (Q ++ [c]) = existsb (fun k => str_eqb (tname k) c) ks.
+Proof.
+  intros Hwf HQ Hk. rewrite rows_eq. unfold has. cbn [existsb]. unfold at_path at 1. cbn [rpath fst].
+  destruct (tpath_ext _ _ _ HQ) as [rest [HQe Hl]].
+  replace (path_eqb (Q ++ [c]) [tname t]) with false.
+  2: { symmetry. destruct (path_eqb (Q ++ [c]) [tname t]) eqn:E; [|reflexivity]. apply path_eqb_eq in E.
+       apply (f_equal (@length str)) in E. rewrite HQe, app_length in E. cbn in E. lia. }
+  cbn [orb]. destruct q as [|i q].
+  - unfold tpath in HQ. cbn in HQ, Hk. inversion HQ; subst Q. inversion Hk; subst ks. apply has_frows_child.
+  - apply (has_child (i :: q) [tname t] (tkids t) Q ks c); [apply wf_t_kids; exact Hwf|discriminate|exact HQ|exact Hk].
+Qed.
+
+Lemma has_insert_last tb H rs P : has (insert_last tb H rs) P = has tb P || has rs P.
+Proof.
+  induction tb as [|r tb IH]; cbn [insert_last]; [reflexivity|].
+  destruct (under H r && negb (existsb (under H) tb)).
+  - unfold has. cbn [existsb]. rewrite existsb_app. unfold has in *.
+    destruct (at_path P r); cbn [orb]; [reflexivity|]. apply orb_comm.
+  - unfold has in *. cbn [existsb]. rewrite IH. rewrite orb_assoc. reflexivity.
+Qed.
+
+Lemma has_ensure_long todo : forall tb d P,
+  length d + length todo < length P -> has (ensure tb d todo) P = has tb P.
+Proof.
+  induction todo as [|c todo IH]; intros tb d P Hl; cbn [ensure]; [reflexivity|].
+  rewrite IH by (rewrite app_length; cbn [length] in *; lia).
+  destruct (has tb (d ++ [c])); [reflexivity|]. rewrite has_insert_last. unfold has at 2. cbn [existsb].
+  unfold at_path. cbn [rpath fst].
+  replace (path_eqb P (d ++ [c])) with false; [rewrite !orb_false_r; reflexivity|].
+  symmetry. destruct (path_eqb P (d ++ [c])) eqn:E; [|reflexivity]. apply path_eqb_eq in E.
+  apply (f_equal (@length str)) in E. rewrite app_length in E. cbn [length] in *. lia.
+Qed.
+
+Lemma has_filter_false (g : row -> bool) tb P : has tb P = false -> has (filter g tb) P = false.
+Proof.
+  unfold has. induction tb as [|r tb IH]; cbn; [reflexivity|]. intros H. apply orb_false_iff in H as [H1 H2].
+  destruct (g r); cbn; [rewrite H1|]; apply IH; exact H2.
+Qed.
+
+Lemma existsb_name_iff ks c : existsb (fun k => str_eqb (tname k) c) ks = false -> forall k, In k ks -> tname k <> c.
+Proof.
+  intros H k Hk E. assert (existsb (fun k => str_eqb (tname k) c) ks = true).
+  { eapply existsb_true; [exact Hk|]. apply str_eqb_eq. exact E. } congruence.
+Qed.
+
+Lemma forest1 (f : forest) : length f = 1 -> exists t, f = [t].
+Proof. destruct f as [|t [|u f]]; cbn; intros H; try discriminate. exists t. reflexivity. Qed.
+
+Lemma wf_f_single t : wf_t t -> wf_f [t].
+Proof. intros H. split; [constructor; [intros []|constructor]|constructor; [exact H|constructor]]. Qed.
+
+(* DESIGN.md "C08_shift_paths": plain shift, destination absent.  The result is the single tree t2 whose
+   table is: create the missing prefixes of the destination parent Q, drop the rows of the moved subtree,
+   insert them (same tags, same attributes, re-rooted under Q) as the last child block of Q. *)
+Theorem shift_new_full c t p x comps PX :
+  plain_shift c -> c_two c = false -> wf_t t ->
+  p <> [] -> tget t p = Some x -> tpath t p = Some PX ->
+  (forall cc, In cc comps -> cc <> []) ->
+  pfx PX (tname t :: comps) = false ->
+  has (rows t) ((tname t :: comps) ++ [tname x]) = false ->
+  exists t2, cs_core c [t] (0 :: p) (TNew comps) = ([t2], None) /\
+    rows t2 = insert_last (minus (ensure (rows t) [tname t] comps) PX) (tname t :: comps)
+                          (rows_from (tname t :: comps) x).
+Proof.
+  intros Hps Htwo Hwf Hp Hx HPX Hne Hnotin Habs. set (Q := tname t :: comps) in *.
+  assert (Hdp : dpiece c = 0) by (unfold dpiece; rewrite Htwo; reflexivity).
+  destruct (add_walk_spec comps [t] [0] [] [tname t] (wf_f_single _ Hwf) ltac:(discriminate) eq_refl Hne)
+    as [f' [q [Ha [Hwf' [Hlen [Hrows [Hq [Hpre [Hfr1 Hfr2]]]]]]]]].
+  destruct (forest1 f' Hlen) as [t1 ->].
+  destruct q as [|q0 q]; [discriminate|]. cbn [is_prefix] in Hpre. rewrite andb_true_r in Hpre.
+  apply Nat.eqb_eq in Hpre. subst q0.
+  assert (Hwf1 : wf_t t1) by (destruct Hwf' as [_ Hf]; inversion Hf; assumption).
+  assert (Hr1 : rows t1 = ensure (rows t) [tname t] comps).
+  { unfold frows in Hrows. cbn [flat_map] in Hrows. rewrite !app_nil_r in Hrows. exact Hrows. }
+  assert (HQ1 : tpath t1 q = Some Q) by exact Hq.
+  assert (Hn1 : tname t1 = tname t).
+  { destruct (tpath_ext _ _ _ HQ1) as [rest [E _]]. unfold Q in E. inversion E. reflexivity. }
+  assert (HPX1 : tpath t1 p = Some PX).
+  { exact (Hfr2 (0 :: p) PX HPX). }
+  assert (Hpq : is_prefix p q = false).
+  { destruct (is_prefix p q) eqn:E; [|reflexivity].
+    rewrite (fpath_prefix_mono _ _ _ _ _ _ E HPX1 HQ1) in Hnotin. discriminate. }
+  assert (Hx1 : tget t1 p = Some x).
+  { unfold tget. rewrite <- (fget_cons0 p t1 []) by exact Hp. apply Hfr1.
+    - rewrite is_prefix_cons. cbn. exact Hpq.
+    - rewrite fget_cons0 by exact Hp. exact Hx. }
+  destruct (fkids_of_fpath _ _ _ _ HQ1) as [ks Hks].
+  assert (Hfresh : forall k, In k ks -> tname k <> tname x).
+  { apply existsb_name_iff. rewrite <- (t_has_child t1 q Q ks (tname x) Hwf1 HQ1 Hks).
+    rewrite Hr1, has_ensure_long; [exact Habs|]. unfold Q. rewrite app_length. cbn [length]. lia. }
+  exists (t_move p q x t1). split.
+  - eapply (shift_core c t p q x ks comps t1); try eassumption.
+    + rewrite Hdp. exact Ha.
+    + exists Q. exact HQ1.
+  - rewrite (rows_t_move t1 p q x PX Q) by assumption. rewrite Hr1. reflexivity.
+Qed.
+
+(* -- agreement with Spec.PC08.edit_cs ------------------------------------------------------------ *)
+
+Lemma skipn_app_exact {A} (a b : list A) : skipn (length a) (a ++ b) = b.
+Proof. induction a; cbn; [reflexivity|assumption]. Qed.
+
+Lemma reroot_rows_from x : forall P0 Q (fresh : bool),
+  map (fun r : row => (Q ++ skipn (length P0) (rpath r), if fresh then None else rtag r, rattrs r)) (rows_from P0 x)
+  = rows_from Q (if fresh then retag x else x).
+Proof.
+  induction x as [g n a ks IH] using tree_ind'. intros P0 Q fresh.
+  assert (Hhead : Q ++ skipn (length P0) (P0 ++ [n]) = Q ++ [n]) by (rewrite skipn_app_exact; reflexivity).
+  assert (Hkids : forall (ks' : list tree), Forall (fun k => In k ks) ks' ->
+     map (fun r : row => (Q ++ skipn (length P0) (rpath r), if fresh then None else rtag r, rattrs r))
+         (flat_map (rows_from (P0 ++ [n])) ks')
+     = flat_map (rows_from (Q ++ [n])) (map (fun k => if fresh then retag k else k) ks')).
+  { induction ks' as [|k ks' IHk]; intros Hin; [reflexivity|]. inversion Hin as [|? ? Hk Hin']; subst.
+    cbn [flat_map map]. rewrite map_app, IHk by exact Hin'. f_equal.
+    rewrite Forall_forall in IH. rewrite <- (IH k Hk (P0 ++ [n]) (Q ++ [n]) fresh).
+    apply map_ext_in. intros r Hr. destruct (rows_from_under _ _ _ Hr) as [rest Hrest].
+    rewrite Hrest. rewrite <- !app_assoc. cbn [app].
+    rewrite skipn_app_exact.
+    replace (P0 ++ n :: tname k :: rest) with ((P0 ++ [n]) ++ tname k :: rest) by (rewrite <- app_assoc; reflexivity).
+    rewrite skipn_app_exact. reflexivity. }
+  assert (Hall : Forall (fun k => In k ks) ks) by (apply Forall_forall; auto).
+  destruct fresh; cbn [rows_from retag map rpath rtag rattrs fst snd]; rewrite Hhead; f_equal.
+  - rewrite (Hkids ks Hall). reflexivity.
+  - rewrite (Hkids ks Hall). rewrite map_id. reflexivity.
+Qed.
+
+Lemma t_has_row t p PX : p <> [] -> tpath t p = Some PX -> has (rows t) PX = true.
+Proof.
+  intros Hp HP. destruct (fpath_row _ _ _ _ Hp HP) as [r [Hr Hrp]]. rewrite rows_eq. unfold has. cbn [existsb].
+  apply orb_true_iff. right. eapply existsb_true; [exact Hr|]. unfold at_path. rewrite Hrp. apply path_eqb_refl.
+Qed.
+
+Lemma pfx_snoc_false P Q a : pfx P Q = false -> P <> Q ++ [a] -> pfx P (Q ++ [a]) = false.
+Proof.
+  intros H1 H2. destruct (pfx P (Q ++ [a])) eqn:E; [|reflexivity]. apply pfx_iff in E as [r Hr].
+  destruct r as [|b r] using rev_ind.
+  - rewrite app_nil_r in Hr. congruence.
+  - rewrite app_assoc in Hr. apply app_inj_tail in Hr as [Hr _]. rewrite Hr, pfx_app in H1. discriminate.
+Qed.
+
+Lemma has_root t : has (rows t) [tname t] = true.
+Proof. rewrite rows_eq. unfold has. cbn [existsb]. unfold at_path at 1. cbn [rpath fst]. rewrite path_eqb_refl. reflexivity. Qed.
+
+(* the table produced by the plain shift is the one Spec.PC08.edit_cs prescribes *)
+Theorem edit_cs_shift_new fl t p x comps PX :
+  f_mc fl = false -> f_ml fl = false -> f_dc fl = false ->
+  wf_t t -> p <> [] -> tget t p = Some x -> tpath t p = Some PX ->
+  pfx PX (tname t :: comps) = false ->
+  has (rows t) ((tname t :: comps) ++ [tname x]) = false ->
+  let T' := insert_last (minus (ensure (rows t) [tname t] comps) PX) (tname t :: comps)
+                        (rows_from (tname t :: comps) x) in
+  edit_cs false true fl (rows t) (rows t) PX (Some ((tname t :: comps) ++ [tname x])) = PNext T' T'.
+Proof.
+  intros Hmc Hml Hdc Hwf Hp Hx HPX Hnotin Habs T'. set (Q := tname t :: comps) in *.
+  destruct (t_sub_rows t p x PX Hwf Hp Hx HPX) as [P0 [HP0 Hsub]].
+  destruct (tpath_ext _ _ _ HPX) as [rest [HPe Hl]].
+  assert (Hk : length PX = S (length P0)) by (rewrite HP0, app_length; cbn; lia).
+  assert (Hk2 : Nat.eqb (length PX) 1 = false).
+  { apply Nat.eqb_neq. rewrite HPe. cbn [length]. destruct p; [congruence|cbn in Hl; lia]. }
+  assert (Hne : PX <> Q ++ [tname x]).
+  { intros E. rewrite <- E in Habs. rewrite (t_has_row t p PX Hp HPX) in Habs. discriminate. }
+  unfold edit_cs. rewrite Hk2. cbn [negb andb].
+  rewrite removelast_last, !last_last. rewrite HP0 at 1. rewrite last_last, str_eqb_refl. cbn [negb].
+  replace (path_eqb (Q ++ [tname x]) PX) with false.
+  2: { symmetry. destruct (path_eqb (Q ++ [tname x]) PX) eqn:E; [|reflexivity]. apply path_eqb_eq in E. congruence. }
+  rewrite (pfx_snoc_false PX Q (tname x) Hnotin Hne). cbn [andb]. rewrite Habs.
+  replace (Nat.ltb (length (Q ++ [tname x])) 2) with false.
+  2: { symmetry. apply Nat.ltb_ge. rewrite app_length. unfold Q. cbn [length]. lia. }
+  rewrite Hmc, Hml, Hdc.
+  assert (He : ensure (rows t) [] Q = ensure (rows t) [tname t] comps).
+  { unfold Q. cbn [ensure app]. rewrite has_root. reflexivity. }
+  rewrite He. cbn [attach_items]. unfold reroot. cbn [fst snd]. fold (sub_rows (rows t) PX). rewrite Hsub.
+  rewrite Hk. cbn [Nat.sub]. rewrite Nat.sub_0_r.
+  rewrite (reroot_rows_from x P0 Q false). rewrite rows_from_eq at 1.
+  cbn [rpath fst].
+  unfold minus at 1. rewrite has_filter_false.
+  2: { rewrite has_ensure_long; [exact Habs|]. unfold Q. rewrite app_length. cbn [length]. lia. }
+  rewrite <- rows_from_eq. reflexivity.
+Qed.
+
+(* -- deletion agrees with the documented edit ---------------------------------------------------- *)
+
+Theorem edit_cs_delete fl t p PX :
+  f_mc fl = false -> f_ml fl = false -> p <> [] -> tpath t p = Some PX ->
+  edit_cs false true fl (rows t) (rows t) PX None = PNext (minus (rows t) PX) (minus (rows t) PX).
+Proof.
+  intros Hmc Hml Hp HPX. destruct (tpath_ext _ _ _ HPX) as [rest [HPe Hl]].
+  assert (Hk2 : Nat.eqb (length PX) 1 = false).
+  { apply Nat.eqb_neq. rewrite HPe. cbn [length]. destruct p; [congruence|cbn in Hl; lia]. }
+  unfold edit_cs. rewrite Hk2, Hmc, Hml. reflexivity.
+Qed.
+
+(* ============================================================================================== *)
+(* Part 7.  copy_nodes: the copy is made of new objects, the original stays where it is.           *)
+
+Record plain_copy (c : cfg) : Prop := {
+  pc_copy : c_copy c = true;
+  pc_two : c_two c = false;
+  pc_mc : f_mc (c_fl c) = false;
+  pc_ml : f_ml (c_fl c) = false;
+  pc_dc : f_dc (c_fl c) = false }.
+
+Lemma tname_retag t : tname (retag t) = tname t.
+Proof. destruct t; reflexivity. Qed.
+Lemma tkids_retag t : tkids (retag t) = map retag (tkids t).
+Proof. destruct t; reflexivity. Qed.
+
+Lemma fget_retag p : forall (ks : forest), fget p (map retag ks) = option_map retag (fget p ks).
+Proof.
+  induction p as [|i p IH]; intros ks; [reflexivity|]. cbn [fget]. rewrite nth_error_map.
+  destruct (nth_error ks i) as [t|]; [|reflexivity]. cbn [option_map].
+  destruct p as [|j p]; [reflexivity|]. rewrite tkids_retag. apply IH.
+Qed.
+
+Lemma attach_plain_copy c t p q x ks :
+  plain_copy c -> p <> [] -> tget t p = Some x ->
+  fkids q (tkids t) = Some ks -> (forall k, In k ks -> tname k <> tname x) ->
+  attach c false [t] (0 :: p) (Some (0 :: q)) = ([t_append q (retag x) t; t_remove p (retag t)], None).
+Proof.
+  intros [Hc Htwo Hmc Hml Hdc] Hp Hx Hks Hfresh. unfold attach. rewrite Hc, Hml, Hdc. cbn [orb andb negb].
+  unfold copy_node. cbn [nth_error length option_map]. unfold move.
+  change ([t] ++ [retag t]) with [t; retag t].
+  assert (Hg : fget (1 :: p) [t; retag t] = Some (retag x)).
+  { cbn [fget nth_error]. destruct p as [|j p]; [congruence|]. rewrite tkids_retag, fget_retag.
+    unfold tget in Hx. rewrite Hx. reflexivity. }
+  rewrite Hg. cbn [is_prefix Nat.eqb andb].
+  replace (fkids (0 :: q) [t; retag t]) with (Some ks) by (symmetry; exact Hks).
+  rewrite tname_retag. rewrite dup_child_false by exact Hfresh.
+  assert (Hprot : protected (nroots c) (1 :: p) = false) by (destruct p; [congruence|reflexivity]).
+  rewrite Hprot.
+  assert (Hadj : adj' (1 :: p) (0 :: q) = 0 :: q) by (unfold adj'; destruct p; [congruence|reflexivity]).
+  rewrite Hadj.
+  assert (Hrem : fremove (1 :: p) [t; retag t] = [t; t_remove p (retag t)]) by (destruct p; [congruence|reflexivity]).
+  rewrite Hrem.
+  replace (fkids (0 :: q) [t; t_remove p (retag t)]) with (Some ks) by (symmetry; exact Hks).
+  reflexivity.
+Qed.
+
+(* DESIGN.md "C08_copy_keeps_source": plain copy, destination absent.  Piece 0 (the tree) afterwards:
+   missing prefixes created, all rows of the original still there, the copied rows (tag None)
+   inserted as last child block of Q. *)
+Theorem copy_new_full c t p x comps PX :
+  plain_copy c -> wf_t t ->
+  p <> [] -> tget t p = Some x -> tpath t p = Some PX ->
+  (forall cc, In cc comps -> cc <> []) ->
+  pfx PX (tname t :: comps) = false ->
+  has (rows t) ((tname t :: comps) ++ [tname x]) = false ->
+  exists t2 rest, cs_core c [t] (0 :: p) (TNew comps) = (t2 :: rest, None) /\
+    rows t2 = insert_last (ensure (rows t) [tname t] comps) (tname t :: comps)
+                          (rows_from (tname t :: comps) (retag x)).
+Proof.
+  intros Hpc Hwf Hp Hx HPX Hne Hnotin Habs. set (Q := tname t :: comps) in *.
+  assert (Hdp : dpiece c = 0) by (unfold dpiece; rewrite (pc_two _ Hpc); reflexivity).
+  destruct (add_walk_spec comps [t] [0] [] [tname t] (wf_f_single _ Hwf) ltac:(discriminate) eq_refl Hne)
+    as [f' [q [Ha [Hwf' [Hlen [Hrows [Hq [Hpre [Hfr1 Hfr2]]]]]]]]].
+  destruct (forest1 f' Hlen) as [t1 ->].
+  destruct q as [|q0 q]; [discriminate|]. cbn [is_prefix] in Hpre. rewrite andb_true_r in Hpre.
+  apply Nat.eqb_eq in Hpre. subst q0.
+  assert (Hwf1 : wf_t t1) by (destruct Hwf' as [_ Hf]; inversion Hf; assumption).
+  assert (Hr1 : rows t1 = ensure (rows t) [tname t] comps).
+  { unfold frows in Hrows. cbn [flat_map] in Hrows. rewrite !app_nil_r in Hrows. exact Hrows. }
+  assert (HQ1 : tpath t1 q = Some Q) by exact Hq.
+  assert (HPX1 : tpath t1 p = Some PX) by exact (Hfr2 (0 :: p) PX HPX).
+  assert (Hpq : is_prefix p q = false).
+  { destruct (is_prefix p q) eqn:E; [|reflexivity].
+    rewrite (fpath_prefix_mono _ _ _ _ _ _ E HPX1 HQ1) in Hnotin. discriminate. }
+  assert (Hx1 : tget t1 p = Some x).
+  { unfold tget. rewrite <- (fget_cons0 p t1 []) by exact Hp. apply Hfr1.
+    - rewrite is_prefix_cons. cbn. exact Hpq.
+    - rewrite fget_cons0 by exact Hp. exact Hx. }
+  destruct (fkids_of_fpath _ _ _ _ HQ1) as [ks Hks].
+  assert (Hfresh : forall k, In k ks -> tname k <> tname x).
+  { apply existsb_name_iff. rewrite <- (t_has_child t1 q Q ks (tname x) Hwf1 HQ1 Hks).
+    rewrite Hr1, has_ensure_long; [exact Habs|]. unfold Q. rewrite app_length. cbn [length]. lia. }
+  exists (t_append q (retag x) t1), [t_remove p (retag t1)]. split.
+  - unfold cs_core. rewrite Hdp, Ha. rewrite (pc_mc _ Hpc).
+    apply (attach_plain_copy c t1 p q x ks); assumption.
+  - rewrite (rows_t_append t1 q (retag x) Q Hwf1 HQ1). rewrite Hr1. reflexivity.
+Qed.
+
+Theorem edit_cs_copy_new fl t p x comps PX :
+  f_mc fl = false -> f_ml fl = false -> f_dc fl = false ->
+  wf_t t -> p <> [] -> tget t p = Some x -> tpath t p = Some PX ->
+  pfx PX (tname t :: comps) = false ->
+  has (rows t) ((tname t :: comps) ++ [tname x]) = false ->
+  let T' := insert_last (ensure (rows t) [tname t] comps) (tname t :: comps)
+                        (rows_from (tname t :: comps) (retag x)) in
+  edit_cs true true fl (rows t) (rows t) PX (Some ((tname t :: comps) ++ [tname x])) = PNext T' T'.
+Proof.
+  intros Hmc Hml Hdc Hwf Hp Hx HPX Hnotin Habs T'. set (Q := tname t :: comps) in *.
+  destruct (t_sub_rows t p x PX Hwf Hp Hx HPX) as [P0 [HP0 Hsub]].
+  assert (Hk : length PX = S (length P0)) by (rewrite HP0, app_length; cbn; lia).
+  assert (Hne : PX <> Q ++ [tname x]).
+  { intros E. rewrite <- E in Habs. rewrite (t_has_row t p PX Hp HPX) in Habs. discriminate. }
+  unfold edit_cs. cbn [negb andb].
+  rewrite removelast_last, !last_last. rewrite HP0 at 1. rewrite last_last, str_eqb_refl. cbn [negb].
+  replace (path_eqb (Q ++ [tname x]) PX) with false.
+  2: { symmetry. destruct (path_eqb (Q ++ [tname x]) PX) eqn:E; [|reflexivity]. apply path_eqb_eq in E. congruence. }
+  rewrite (pfx_snoc_false PX Q (tname x) Hnotin Hne). cbn [andb]. rewrite Habs.
+  replace (Nat.ltb (length (Q ++ [tname x])) 2) with false.
+  2: { symmetry. apply Nat.ltb_ge. rewrite app_length. unfold Q. cbn [length]. lia. }
+  rewrite Hmc, Hml, Hdc.
+  assert (He : ensure (rows t) [] Q = ensure (rows t) [tname t] comps).
+  { unfold Q. cbn [ensure app]. rewrite has_root. reflexivity. }
+  rewrite He. cbn [attach_items]. unfold reroot. cbn [fst snd]. fold (sub_rows (rows t) PX). rewrite Hsub.
+  rewrite Hk. cbn [Nat.sub]. rewrite Nat.sub_0_r.
+  rewrite (reroot_rows_from x P0 Q true). rewrite rows_from_eq at 1.
+  cbn [rpath fst]. rewrite tname_retag.
+  rewrite has_ensure_long by (unfold Q; rewrite app_length; cbn [length]; lia). rewrite Habs.
+  rewrite <- (tname_retag x), <- rows_from_eq. reflexivity.
+Qed.
+
+(* ============================================================================================== *)
+(* Part 8.  Untouched nodes: the rows that are not addressed form a subsequence of the result       *)
+(* (same path, same tag, same attributes, same relative order).                                    *)
+
+Inductive subseq {A} : list A -> list A -> Prop :=
+| ss_nil l : subseq [] l
+| ss_skip x a b : subseq a b -> subseq a (x :: b)
+| ss_keep x a b : subseq a b -> subseq (x :: a) (x :: b).
+
+Lemma subseq_refl {A} (l : list A) : subseq l l.
+Proof. induction l; [apply ss_nil|apply ss_keep; assumption]. Qed.
+
+Lemma subseq_app_l {A} (a b c : list A) : subseq a b -> subseq a (c ++ b).
+Proof. intros H. induction c; cbn; [exact H|apply ss_skip; assumption]. Qed.
+
+Lemma subseq_app {A} (a a' b b' : list A) : subseq a a' -> subseq b b' -> subseq (a ++ b) (a' ++ b').
+Proof.
+  intros H1 H2. induction H1; cbn.
+  - apply subseq_app_l. exact H2.
+  - apply ss_skip. exact IHsubseq.
+  - apply ss_keep. exact IHsubseq.
+Qed.
+
+Lemma subseq_trans {A} (a b c : list A) : subseq a b -> subseq b c -> subseq a c.
+Proof.
+  intros H1 H2. revert a H1. induction H2; intros a0 H1.
+  - inversion H1; subst. apply ss_nil.
+  - apply ss_skip. apply IHsubseq. exact H1.
+  - inversion H1; subst.
+    + apply ss_nil.
+    + apply ss_skip. apply IHsubseq. assumption.
+    + apply ss_keep. apply IHsubseq. assumption.
+Qed.
+
+Lemma subseq_filter {A} (g : A -> bool) l : subseq (filter g l) l.
+Proof. induction l as [|x l IH]; cbn; [apply ss_nil|]. destruct (g x); [apply ss_keep|apply ss_skip]; exact IH. Qed.
+
+Lemma subseq_filter_mono {A} (g : A -> bool) a b : subseq a b -> subseq (filter g a) (filter g b).
+Proof.
+  intros H. induction H; cbn.
+  - apply ss_nil.
+  - destruct (g x); [apply ss_skip|]; exact IHsubseq.
+  - destruct (g x); [apply ss_keep|]; exact IHsubseq.
+Qed.
+
+Lemma subseq_insert_last tb P rs : subseq tb (insert_last tb P rs).
+Proof.
+  induction tb as [|r tb IH]; cbn [insert_last]; [apply ss_nil|].
+  destruct (under P r && negb (existsb (under P) tb)).
+  - apply ss_keep. apply subseq_app_l. apply subseq_refl.
+  - apply ss_keep. exact IH.
+Qed.
+
+Lemma subseq_ensure todo : forall tb d, subseq tb (ensure tb d todo).
+Proof.
+  induction todo as [|c todo IH]; intros tb d; cbn [ensure]; [apply subseq_refl|].
+  destruct (has tb (d ++ [c])); [apply IH|].
+  eapply subseq_trans; [apply subseq_insert_last|apply IH].
+Qed.
+
+Lemma subseq_In {A} (a b : list A) x : subseq a b -> In x a -> In x b.
+Proof.
+  intros H. induction H; intros Hx.
+  - destruct Hx.
+  - right. apply IHsubseq. exact Hx.
+  - destruct Hx as [<-|Hx]; [left; reflexivity|right; apply IHsubseq; exact Hx].
+Qed.
+
+(* "C08_untouched_identity", shift: every row not at or below the source path is still there, unchanged,
+   in the same relative order *)
+Theorem untouched_shift tb PX d todo Q rs :
+  subseq (minus tb PX) (insert_last (minus (ensure tb d todo) PX) Q rs).
+Proof.
+  eapply subseq_trans; [|apply subseq_insert_last]. apply subseq_filter_mono. apply subseq_ensure.
+Qed.
+
+(* copy: every row of the tree is still there *)
+Theorem untouched_copy tb d todo Q rs : subseq tb (insert_last (ensure tb d todo) Q rs).
+Proof. eapply subseq_trans; [apply subseq_ensure|apply subseq_insert_last]. Qed.
+
+Theorem untouched_delete tb PX : subseq (minus tb PX) tb.
+Proof. apply subseq_filter. Qed.
+
+(* ============================================================================================== *)
+(* Part 9.  Tree-to-tree copies never touch the source tree (piece 0), whatever the flags, the      *)
+(* paths and the outcome (including calls that raise midway).                                     *)
+
+Definition nz (z : ref) : bool := match z with S _ :: _ => true | _ => false end.
+Definition nzo (y : option ref) : bool := match y with None => true | Some q => nz q end.
+Definition nzf (t : ref -> ref) : Prop := forall z, nz z = true -> nz (t z) = true.
+
+Lemma nz_app z r : nz z = true -> nz (z ++ r) = true.
+Proof. destruct z as [|[|i] z]; cbn; intros H; try discriminate. reflexivity. Qed.
+
+Lemma nz_adj x z : nz x = true -> nz z = true -> nz (adj' x z) = true.
+Proof.
+  destruct x as [|[|i] x]; cbn; intros Hx; try discriminate.
+  destruct z as [|[|j] z]; cbn; intros Hz; try discriminate.
+  unfold adj'. cbn [adj]. destruct x as [|k x].
+  - destruct (Nat.eqb (S j) (S i)); [reflexivity|].
+    destruct (Nat.ltb (S i) (S j)) eqn:E; [|reflexivity].
+    apply Nat.ltb_lt in E. destruct j; [lia|reflexivity].
+  - destruct (Nat.eqb (S j) (S i)); [|reflexivity].
+    destruct (adj (k :: x) z); reflexivity.
+Qed.
+
+Lemma nz_track x nx : nz x = true -> nz nx = true -> nzf (track x nx).
+Proof.
+  intros Hx Hnx z Hz. unfold track. destruct (is_prefix x z); [apply nz_app; exact Hnx|apply nz_adj; assumption].
+Qed.
+
+Lemma nzf_id : nzf (fun z => z).
+Proof. intros z H; exact H. Qed.
+
+Lemma nzf_comp t1 t2 : nzf t1 -> nzf t2 -> nzf (fun z => t2 (t1 z)).
+Proof. intros H1 H2 z Hz. apply H2, H1, Hz. Qed.
+
+Lemma nz_parent x q : nz x = true -> parent_ref x = Some q -> nz q = true.
+Proof.
+  destruct x as [|[|i] [|j x]]; cbn; intros Hx Hq; try discriminate.
+  inversion Hq; subst. reflexivity.
+Qed.
+
+Lemma fremove_keeps0 x (f : forest) : nz x = true -> nth_error (fremove x f) 0 = nth_error f 0.
+Proof.
+  destruct x as [|[|i] x]; cbn [nz]; intros Hx; try discriminate. cbn [fremove]. destruct x as [|k x].
+  - destruct f; reflexivity.
+  - destruct f; reflexivity.
+Qed.
+
+Lemma fappend_keeps0 q x (f : forest) : nz q = true -> nth_error (fappend q x f) 0 = nth_error f 0.
+Proof.
+  destruct q as [|[|i] q]; cbn [nz]; intros Hq; try discriminate. cbn [fappend]. destruct f; reflexivity.
+Qed.
+
+Lemma nth0_app (f : forest) l s : nth_error f 0 = Some s -> nth_error (f ++ l) 0 = Some s.
+Proof. destruct f; cbn; [discriminate|auto]. Qed.
+
+Lemma nth0_len (f : forest) s : nth_error f 0 = Some s -> exists n, length f = S n.
+Proof. destruct f; cbn; [discriminate|]. intros _. eexists. reflexivity. Qed.
+
+Lemma nz_len (g : forest) s : nth_error g 0 = Some s -> nz [length g] = true.
+Proof. destruct g; cbn; [discriminate|reflexivity]. Qed.
+
+Lemma move_keeps0 nr (f : forest) x y s f' t :
+  nz x = true -> nzo y = true -> nth_error f 0 = Some s -> move nr f x y = MvOk f' t ->
+  nth_error f' 0 = Some s /\ nzf t.
+Proof.
+  intros Hx Hy Hs. unfold move. destruct (fget x f) as [sub|]; [|discriminate].
+  destruct y as [q|].
+  - cbn [nzo] in Hy. destruct (is_prefix x q); [discriminate|].
+    destruct (fkids q f) as [ks|]; [|discriminate]. destruct (dup_child _ _ _ _); [discriminate|].
+    destruct (protected nr x); [discriminate|].
+    destruct (fkids (adj' x q) (fremove x f)) as [ks1|]; [|discriminate].
+    intros H; inversion H; subst; clear H. split.
+    + rewrite fappend_keeps0 by (apply nz_adj; assumption). rewrite fremove_keeps0 by exact Hx. exact Hs.
+    + apply nz_track; [exact Hx|]. apply nz_app. apply nz_adj; assumption.
+  - destruct x as [|i [|j x]].
+    + discriminate.
+    + intros H; inversion H; subst. split; [exact Hs|apply nzf_id].
+    + intros H; inversion H; subst; clear H.
+      assert (H1 : nth_error (fremove (i :: j :: x) f) 0 = Some s) by (rewrite fremove_keeps0 by exact Hx; exact Hs).
+      split; [apply nth0_app; exact H1|].
+      apply nz_track; [exact Hx|]. apply (nz_len _ s). exact H1.
+Qed.
+
+Lemma del_children_go_keeps0 nr n : forall (f : forest) x trk s f' t,
+  nz x = true -> nzf trk -> nth_error f 0 = Some s -> del_children_go nr n f x trk = MvOk f' t ->
+  nth_error f' 0 = Some s /\ nzf t.
+Proof.
+  induction n as [|n IH]; intros f x trk s f' t Hx Ht Hs; cbn [del_children_go].
+  - intros H; inversion H; subst. split; assumption.
+  - destruct (move nr f (x ++ [0]) None) as [f1 t1|] eqn:Em; [|discriminate].
+    destruct (move_keeps0 _ _ _ None _ _ _ (nz_app _ _ Hx) eq_refl Hs Em) as [Hs1 Ht1].
+    apply IH; [exact Hx|apply (nzf_comp trk t1); assumption|exact Hs1].
+Qed.
+
+Lemma del_children_keeps0 nr (f : forest) x s f' t :
+  nz x = true -> nth_error f 0 = Some s -> del_children nr f x = MvOk f' t -> nth_error f' 0 = Some s /\ nzf t.
+Proof.
+  intros Hx Hs. unfold del_children. destruct (fkids x f); [|discriminate].
+  apply del_children_go_keeps0; [exact Hx|apply nzf_id|exact Hs].
+Qed.
+
+Lemma opt_del_children_keeps0 nr (b : bool) (f : forest) x s f' t :
+  nz x = true -> nth_error f 0 = Some s ->
+  (if b then del_children nr f x else MvOk f (fun z => z)) = MvOk f' t -> nth_error f' 0 = Some s /\ nzf t.
+Proof.
+  intros Hx Hs. destruct b; [apply del_children_keeps0; assumption|].
+  intros H; inversion H; subst. split; [exact Hs|apply nzf_id].
+Qed.
+
+Lemma nzo_map t y : nzf t -> nzo y = true -> nzo (option_map t y) = true.
+Proof. intros Ht. destruct y; cbn; [apply Ht|reflexivity]. Qed.
+
+Lemma mc_loop_keeps0 nr dc cs : forall (f : forest) trk tn fr s f' r,
+  (forall ch, In ch cs -> nz ch = true) -> nzf trk -> nzo tn = true -> nz fr = true ->
+  nth_error f 0 = Some s -> mc_loop nr dc f cs trk tn fr = (f', r) ->
+  nth_error f' 0 = Some s /\ match r with Ret fr' => nz fr' = true | Raise _ => True end.
+Proof.
+  induction cs as [|ch cs IH]; intros f trk tn fr s f' r Hcs Ht Htn Hfr Hs; cbn [mc_loop].
+  - intros H; inversion H; subst. split; assumption.
+  - assert (Hch : nz (trk ch) = true) by (apply Ht, Hcs; left; reflexivity).
+    destruct (if dc then del_children nr f (trk ch) else MvOk f (fun z => z)) as [f1 t1|] eqn:E1.
+    2: { intros H; inversion H; subst. split; [exact Hs|exact I]. }
+    destruct (opt_del_children_keeps0 _ _ _ _ _ _ _ Hch Hs E1) as [Hs1 Ht1].
+    destruct (move nr f1 (t1 (trk ch)) (option_map t1 tn)) as [f2 t2|] eqn:E2.
+    2: { intros H; inversion H; subst. split; [exact Hs1|exact I]. }
+    destruct (move_keeps0 _ _ _ _ _ _ _ (Ht1 _ Hch) (nzo_map _ _ Ht1 Htn) Hs1 E2) as [Hs2 Ht2].
+    apply IH.
+    + intros c Hc. apply Hcs. right; exact Hc.
+    + apply (nzf_comp trk (fun z => t2 (t1 z))); [exact Ht|]. apply (nzf_comp t1 t2); assumption.
+    + apply nzo_map; [apply (nzf_comp t1 t2); assumption|exact Htn].
+    + apply Ht2, Ht1, Hfr.
+    + exact Hs2.
+Qed.
+
+Lemma ml_loop_keeps0 nr ls : forall (f : forest) trk tn s f' o,
+  (forall l, In l ls -> nz l = true) -> nzf trk -> nzo tn = true ->
+  nth_error f 0 = Some s -> ml_loop nr f ls trk tn = (f', o) -> nth_error f' 0 = Some s.
+Proof.
+  induction ls as [|l ls IH]; intros f trk tn s f' o Hls Ht Htn Hs; cbn [ml_loop].
+  - intros H; inversion H; subst. exact Hs.
+  - destruct (move nr f (trk l) tn) as [f1 t1|] eqn:E1.
+    2: { intros H; inversion H; subst. exact Hs. }
+    destruct (move_keeps0 _ _ _ _ _ _ _ (Ht _ (Hls _ (or_introl eq_refl))) Htn Hs E1) as [Hs1 Ht1].
+    apply IH.
+    + intros c Hc. apply Hls. right; exact Hc.
+    + apply (nzf_comp trk t1); assumption.
+    + apply nzo_map; assumption.
+    + exact Hs1.
+Qed.
+
+Lemma rp_loop_keeps0 nr sibs : forall (f : forest) first trk fr par s f' o,
+  (forall l, In l sibs -> nz l = true) -> nzf trk -> nz fr = true -> nz par = true ->
+  nth_error f 0 = Some s -> rp_loop nr f first sibs trk fr par = (f', o) -> nth_error f' 0 = Some s.
+Proof.
+  induction sibs as [|sb sibs IH]; intros f first trk fr par s f' o Hsb Ht Hfr Hpar Hs; cbn [rp_loop].
+  - intros H; inversion H; subst. exact Hs.
+  - assert (Hs0 : nz (trk sb) = true) by (apply Ht, Hsb; left; reflexivity).
+    destruct (move nr f (trk sb) None) as [f1 t1|] eqn:E1.
+    2: { intros H; inversion H; subst. exact Hs. }
+    destruct (move_keeps0 _ _ _ None _ _ _ Hs0 eq_refl Hs E1) as [Hs1 Ht1].
+    assert (Hx : nz (if first then t1 fr else t1 (trk sb)) = true) by (destruct first; apply Ht1; assumption).
+    destruct (move nr f1 (if first then t1 fr else t1 (trk sb)) (Some (t1 par))) as [f2 t2|] eqn:E2.
+    2: { intros H; inversion H; subst. exact Hs1. }
+    destruct (move_keeps0 _ _ _ (Some (t1 par)) _ _ _ Hx (Ht1 _ Hpar) Hs1 E2) as [Hs2 Ht2].
+    apply IH.
+    + intros c Hc. apply Hsb. right; exact Hc.
+    + apply (nzf_comp trk (fun z => t2 (t1 z))); [exact Ht|]. apply (nzf_comp t1 t2); assumption.
+    + apply Ht2, Ht1, Hfr.
+    + apply Ht2, Ht1, Hpar.
+    + exact Hs2.
+Qed.
+
+Lemma refs_from_ext t : forall here names e, In e (refs_from here names t) -> exists r, fst (fst e) = here ++ r.
+Proof.
+  induction t as [g n a ks IH] using tree_ind'. intros here names e He. cbn [refs_from] in He.
+  destruct He as [<-|He]; [exists []; cbn; rewrite app_nil_r; reflexivity|].
+  revert He. generalize 0 as i. induction ks as [|k ks IHk]; intros i He; [destruct He|].
+  inversion IH as [|? ? Hk Hks]; subst. apply in_app_or in He as [He|He].
+  - destruct (Hk _ _ _ He) as [r Hr]. exists (i :: r). rewrite Hr, <- app_assoc. reflexivity.
+  - apply (IHk Hks (S i)). exact He.
+Qed.
+
+Lemma leaf_refs_nz (f : forest) x : nz x = true -> forall l, In l (leaf_refs f x) -> nz l = true.
+Proof.
+  intros Hx l Hl. unfold leaf_refs in Hl. destruct (fget x f) as [t|]; [|destruct Hl].
+  apply in_map_iff in Hl as [e [<- He]]. apply filter_In in He as [He _].
+  destruct (refs_from_ext _ _ _ _ He) as [r ->]. apply nz_app. exact Hx.
+Qed.
+
+Lemma child_refs_nz x n : nz x = true -> forall ch, In ch (child_refs x n) -> nz ch = true.
+Proof. intros Hx ch Hc. unfold child_refs in Hc. apply in_map_iff in Hc as [i [<- _]]. apply nz_app. exact Hx. Qed.
+
+Lemma attach_keeps0 c mc (f : forest) fr tn s f' o :
+  c_copy c = true -> nzo tn = true -> nth_error f 0 = Some s ->
+  attach c mc f fr tn = (f', o) -> nth_error f' 0 = Some s.
+Proof.
+  intros Hc Htn Hs. unfold attach. rewrite Hc. unfold copy_node.
+  destruct fr as [|k p]; [intros H; inversion H; subst; exact Hs|].
+  destruct (nth_error f k) as [tk|]; [|intros H; inversion H; subst; exact Hs].
+  assert (Hs0 : nth_error (f ++ [retag tk]) 0 = Some s) by (apply nth0_app; exact Hs).
+  assert (Hfr0 : nz (length f :: p) = true) by (pose proof (nz_len _ _ Hs) as Hz; destruct (length f); [discriminate|reflexivity]).
+  set (f0 := f ++ [retag tk]) in *. set (fr0 := length f :: p) in *.
+  destruct ((mc || f_ml (c_fl c)) && match tn with None => true | Some _ => false end);
+    [intros H; inversion H; subst; exact Hs0|].
+  destruct mc.
+  - destruct (fkids fr0 f0) as [ks|]; [|intros H; inversion H; subst; exact Hs0].
+    destruct (mc_loop (nroots c) (f_dc (c_fl c)) f0 (child_refs fr0 (length ks)) (fun z => z) tn fr0)
+      as [f1 r] eqn:El.
+    destruct (mc_loop_keeps0 _ _ _ _ _ _ _ _ _ _ (child_refs_nz _ _ Hfr0) nzf_id Htn Hfr0 Hs0 El) as [Hs1 Hr].
+    destruct r as [fr1|e]; [|intros H; inversion H; subst; exact Hs1].
+    destruct (move (nroots c) f1 fr1 None) as [f2 t2|] eqn:Em; [|intros H; inversion H; subst; exact Hs1].
+    destruct (move_keeps0 _ _ _ None _ _ _ Hr eq_refl Hs1 Em) as [Hs2 _].
+    intros H; inversion H; subst; exact Hs2.
+  - destruct (f_ml (c_fl c)).
+    + cbn [negb andb]. intros H. eapply ml_loop_keeps0; [apply leaf_refs_nz; exact Hfr0|apply nzf_id|exact Htn|exact Hs0|exact H].
+    + destruct (if f_dc (c_fl c) then del_children (nroots c) f0 fr0 else MvOk f0 (fun z => z)) as [f1 t1|] eqn:E1;
+        [|intros H; inversion H; subst; exact Hs0].
+      destruct (opt_del_children_keeps0 _ _ _ _ _ _ _ Hfr0 Hs0 E1) as [Hs1 Ht1].
+      destruct (move (nroots c) f1 (t1 fr0) (option_map t1 tn)) as [f2 t2|] eqn:Em;
+        [|intros H; inversion H; subst; exact Hs1].
+      destruct (move_keeps0 _ _ _ _ _ _ _ (Ht1 _ Hfr0) (nzo_map _ _ Ht1 Htn) Hs1 Em) as [Hs2 _].
+      intros H; inversion H; subst; exact Hs2.
+Qed.
+
+Lemma detach_keeps0 nr (f : forest) dr fr s f' r :
+  nz dr = true -> nth_error f 0 = Some s -> detach_to_parent nr f dr fr = (f', r) ->
+  nth_error f' 0 = Some s /\ match r with Ret (_, tn) => nzo tn = true | Raise _ => True end.
+Proof.
+  intros Hd Hs. unfold detach_to_parent. destruct (move nr f dr None) as [f1 t1|] eqn:Em.
+  - destruct (move_keeps0 _ _ _ None _ _ _ Hd eq_refl Hs Em) as [Hs1 Ht1].
+    intros H; inversion H; subst. split; [exact Hs1|].
+    destruct (parent_ref dr) as [q|] eqn:Eq; cbn; [|reflexivity]. apply Ht1. eapply nz_parent; eassumption.
+  - intros H; inversion H; subst. split; [exact Hs|exact I].
+Qed.
+
+Lemma add_walk_keeps0 comps : forall (f : forest) here s f' r,
+  nz here = true -> nth_error f 0 = Some s -> add_walk f here comps = (f', r) ->
+  nth_error f' 0 = Some s /\ match r with Ret q => nz q = true | Raise _ => True end.
+Proof.
+  induction comps as [|c comps IH]; intros f here s f' r Hh Hs; cbn [add_walk].
+  - intros H; inversion H; subst. split; assumption.
+  - destruct (fkids here f) as [ks|]; [|intros H; inversion H; subst; split; [exact Hs|exact I]].
+    destruct (name_idx c 0 ks) as [|i [|j l]].
+    + destruct c as [|ch c]; [intros H; inversion H; subst; split; [exact Hs|exact I]|].
+      apply IH; [apply nz_app; exact Hh|]. rewrite fappend_keeps0 by exact Hh. exact Hs.
+    + apply IH; [apply nz_app; exact Hh|exact Hs].
+    + intros H; inversion H; subst; split; [exact Hs|exact I].
+Qed.
+
+Lemma walk_names_nz comps : forall ks here r,
+  nz here = true -> walk_names ks here comps = Ret (Some r) -> nz r = true.
+Proof.
+  induction comps as [|c comps IH]; intros ks here r Hh; cbn [walk_names].
+  - intros H; inversion H; subst. exact Hh.
+  - destruct (name_idx c 0 ks) as [|i [|j l]]; try discriminate.
+    destruct (nth_error ks i) as [k|]; [|discriminate]. apply IH. apply nz_app. exact Hh.
+Qed.
+
+Lemma find_full_path_nz (f : forest) k tsep path r :
+  find_full_path f (S k) tsep path = Ret (Some r) -> nz r = true.
+Proof.
+  unfold find_full_path. destruct (nth_error f (S k)) as [t|]; [|discriminate].
+  destruct (negb _); [discriminate|]. apply walk_names_nz. reflexivity.
+Qed.
+
+Record tt_cfg (c : cfg) : Prop := { tc_copy : c_copy c = true; tc_two : c_two c = true }.
+
+Lemma cs_core_keeps0 c (f : forest) fr tg s f' o :
+  tt_cfg c -> match tg with TNode dr => nz dr = true | _ => True end ->
+  nth_error f 0 = Some s -> cs_core c f fr tg = (f', o) -> nth_error f' 0 = Some s.
+Proof.
+  intros [Hc Htwo] Htg Hs. unfold cs_core. destruct tg as [|dr|comps].
+  - apply attach_keeps0; [exact Hc|reflexivity|exact Hs].
+  - assert (Hpar : nzo (parent_ref dr) = true).
+    { destruct (parent_ref dr) eqn:E; cbn; [eapply nz_parent; eassumption|reflexivity]. }
+    repeat match goal with
+    | |- (if ?b then _ else _) = _ -> _ => destruct b
+    | |- context [detach_to_parent ?a ?b ?c ?d] =>
+        let E := fresh "E" in let H1 := fresh "Hk" in let H2 := fresh "Hr" in
+        destruct (detach_to_parent a b c d) as [f1 [[fr1 tn]|e]] eqn:E;
+        destruct (detach_keeps0 _ _ _ _ _ _ _ Htg Hs E) as [H1 H2]
+    | |- context [del_children ?a ?b ?c] =>
+        let E := fresh "E" in
+        destruct (del_children a b c) as [f1 t1|] eqn:E;
+        [destruct (del_children_keeps0 _ _ _ _ _ _ Htg Hs E)|]
+    end;
+    try (intros H; inversion H; subst; assumption);
+    try (apply attach_keeps0; [exact Hc|assumption|assumption]);
+    try (apply attach_keeps0; [exact Hc|cbn; try apply H0; assumption|assumption]).
+  - destruct (add_walk f [dpiece c] comps) as [f1 r] eqn:Ea.
+    assert (Hh : nz [dpiece c] = true) by (unfold dpiece; rewrite Htwo; reflexivity).
+    destruct (add_walk_keeps0 _ _ _ _ _ _ Hh Hs Ea) as [Hs1 Hr].
+    destruct r as [q|e]; [|intros H; inversion H; subst; exact Hs1].
+    apply attach_keeps0; [exact Hc|exact Hr|exact Hs1].
+Qed.
+
+Lemma cs_pair_keeps0 c (f : forest) fp tp s f' o :
+  tt_cfg c -> nth_error f 0 = Some s -> cs_pair c f fp tp = (f', o) -> nth_error f' 0 = Some s.
+Proof.
+  intros Htt Hs. unfold cs_pair.
+  destruct (resolve_from c f fp) as [[fr|]|e]; [| |intros H; inversion H; subst; exact Hs].
+  - destruct (resolve_target c f tp) as [tg|e] eqn:Et; [|intros H; inversion H; subst; exact Hs].
+    apply cs_core_keeps0; [exact Htt| |exact Hs].
+    unfold resolve_target in Et. destruct (truthy tp) as [tpath|]; [|inversion Et; exact I].
+    unfold dpiece in Et. rewrite (tc_two _ Htt) in Et.
+    destruct (find_full_path f 1 (c_dsep c) tpath) as [[dr|]|e] eqn:Ef; [| |discriminate].
+    + inversion Et; subst. eapply find_full_path_nz; exact Ef.
+    + destruct (add_path_comps _ _ _ _); inversion Et; exact I.
+  - destruct (f_skip (c_fl c)); intros H; inversion H; subst; exact Hs.
+Qed.
+
+Lemma rp_core_keeps0 c (f : forest) fr dr s f' o :
+  tt_cfg c -> nz dr = true -> nth_error f 0 = Some s -> rp_core c f fr dr = (f', o) -> nth_error f' 0 = Some s.
+Proof.
+  intros [Hc Htwo] Hd Hs. unfold rp_core.
+  destruct (ref_eqb fr dr); [intros H; inversion H; subst; exact Hs|].
+  rewrite Hc. unfold copy_node.
+  destruct fr as [|k p]; [intros H; inversion H; subst; exact Hs|].
+  destruct (nth_error f k) as [tk|]; [|intros H; inversion H; subst; exact Hs].
+  assert (Hs0 : nth_error (f ++ [retag tk]) 0 = Some s) by (apply nth0_app; exact Hs).
+  assert (Hfr0 : nz (length f :: p) = true)
+    by (pose proof (nz_len _ _ Hs) as Hz; destruct (length f); [discriminate|reflexivity]).
+  set (f0 := f ++ [retag tk]) in *. set (fr0 := length f :: p) in *.
+  destruct (if f_dc (c_fl c) then del_children (nroots c) f0 fr0 else MvOk f0 (fun z => z)) as [f1 t1|] eqn:E1;
+    [|intros H; inversion H; subst; exact Hs0].
+  destruct (opt_del_children_keeps0 _ _ _ _ _ _ _ Hfr0 Hs0 E1) as [Hs1 Ht1].
+  destruct (parent_ref (t1 dr)) as [par|] eqn:Ep; [|intros H; inversion H; subst; exact Hs1].
+  assert (Hpar : nz par = true) by (eapply nz_parent; [apply Ht1; exact Hd|exact Ep]).
+  destruct (fkids par f1) as [ks|]; [|intros H; inversion H; subst; exact Hs1].
+  apply rp_loop_keeps0; [|apply nzf_id|apply Ht1; exact Hfr0|exact Hpar|exact Hs1].
+  intros l Hl. apply in_map_iff in Hl as [i [<- _]]. apply nz_app. exact Hpar.
+Qed.
+
+Lemma rp_pair_keeps0 c (f : forest) fp tp s f' o :
+  tt_cfg c -> nth_error f 0 = Some s -> rp_pair c f fp tp = (f', o) -> nth_error f' 0 = Some s.
+Proof.
+  intros Htt Hs. unfold rp_pair.
+  destruct (resolve_from c f fp) as [[fr|]|e]; [| |intros H; inversion H; subst; exact Hs].
+  - destruct tp as [tpath|]; [|intros H; inversion H; subst; exact Hs].
+    unfold dpiece. rewrite (tc_two _ Htt).
+    destruct (find_full_path f 1 (c_dsep c) tpath) as [[dr|]|e] eqn:Ef;
+      try (intros H; inversion H; subst; exact Hs).
+    apply rp_core_keeps0; [exact Htt|eapply find_full_path_nz; exact Ef|exact Hs].
+  - destruct (f_skip (c_fl c)); intros H; inversion H; subst; exact Hs.
+Qed.
+
+Lemma run_pairs_keeps0 (step : forest -> str -> option str -> outc) s :
+  (forall f fp tp f' o, nth_error f 0 = Some s -> step f fp tp = (f', o) -> nth_error f' 0 = Some s) ->
+  forall fps tps (f : forest) f' o,
+  nth_error f 0 = Some s -> run_pairs step f fps tps = (f', o) -> nth_error f' 0 = Some s.
+Proof.
+  intros Hstep. induction fps as [|fp fps IH]; intros tps f f' o Hs; cbn [run_pairs].
+  - intros H; inversion H; subst. exact Hs.
+  - destruct tps as [|tp tps]; [intros H; inversion H; subst; exact Hs|].
+    destruct (step f fp tp) as [f1 [e|]] eqn:Es.
+    + intros H; inversion H; subst. eapply Hstep; eassumption.
+    + apply IH. eapply Hstep; eassumption.
+Qed.
+
+(* DESIGN.md "C08_tree_to_tree_source_untouched" *)
+Theorem tt_source_untouched i :
+  is_tt (mi_op i) = true -> nth_error (fst (run i)) 0 = Some (mi_src i).
+Proof.
+  intros Htt. assert (Hc : tt_cfg (cfg_of i)).
+  { unfold cfg_of. split; cbn; [|exact Htt]. destruct (mi_op i); try discriminate; reflexivity. }
+  assert (Hs : nth_error (init_forest i) 0 = Some (mi_src i)) by (unfold init_forest; rewrite Htt; reflexivity).
+  unfold run, run_from. destruct (is_replace (mi_op i)).
+  - unfold replace_logic. destruct (negb (seps_ok (cfg_of i))); [exact Hs|].
+    destruct (rp_validate _ _ _ _); [exact Hs|].
+    destruct (run_pairs _ _ _ _) as [f' o] eqn:Er. cbn [fst].
+    eapply (run_pairs_keeps0 (rp_pair (cfg_of i)) (mi_src i)); [|exact Hs|exact Er].
+    intros f fp tp f1 o1 H1 H2. eapply rp_pair_keeps0; eassumption.
+  - unfold copy_or_shift_logic. destruct (negb (seps_ok (cfg_of i))); [exact Hs|].
+    destruct (cs_validate _ _ _ _); [exact Hs|].
+    destruct (run_pairs _ _ _ _) as [f' o] eqn:Er. cbn [fst].
+    eapply (run_pairs_keeps0 (cs_pair (cfg_of i)) (mi_src i)); [|exact Hs|exact Er].
+    intros f fp tp f1 o1 H1 H2. eapply cs_pair_keeps0; eassumption.
+Qed.
+
+(* ============================================================================================== *)
+(* Part 10.  overriding: the node at the destination path goes away, the shifted node takes a place  *)
+(* under the same parent.                                                                          *)
+
+Lemma adj_length x : forall q r, adj x q = Some r -> length r = length q.
+Proof.
+  induction x as [|i x IH]; intros q r H; [discriminate|].
+  destruct q as [|j q]; [destruct x; inversion H; reflexivity|]. cbn [adj] in H. destruct x as [|k x].
+  - destruct (Nat.eqb j i); [discriminate|]. inversion H; subst. reflexivity.
+  - destruct (Nat.eqb j i); [|inversion H; subst; reflexivity].
+    destruct (adj (k :: x) q) as [r'|] eqn:E; [|discriminate]. inversion H; subst. cbn. f_equal. eapply IH. exact E.
+Qed.
+
+Lemma adj'_nonempty x q : q <> [] -> adj' x q <> [].
+Proof.
+  intros Hq. unfold adj'. destruct (adj x q) as [r|] eqn:E; [|exact Hq].
+  apply adj_length in E. destruct r; [destruct q; [congruence|discriminate]|discriminate].
+Qed.
+
+Lemma fpath_removelast d : forall pre (f : forest) PD,
+  d <> [] -> fpath pre d f = Some PD -> fpath pre (removelast d) f = Some (removelast PD).
+Proof.
+  induction d as [|i d IH]; intros pre f PD Hd H; [congruence|].
+  cbn [fpath] in H. destruct (nth_error f i) as [t|] eqn:Et; [|discriminate]. destruct d as [|j d].
+  - cbn in H. inversion H; subst. cbn. rewrite removelast_last. reflexivity.
+  - change (removelast (i :: j :: d)) with (i :: removelast (j :: d)). cbn [fpath]. rewrite Et.
+    apply IH; [discriminate|exact H].
+Qed.
+
+Lemma is_prefix_removelast_false d : d <> [] -> is_prefix d (removelast d) = false.
+Proof.
+  intros Hd. destruct (is_prefix d (removelast d)) eqn:E; [|reflexivity].
+  apply is_prefix_iff in E as [r Hr]. apply (f_equal (@length nat)) in Hr.
+  rewrite app_length in Hr. destruct d as [|a d] using rev_ind; [congruence|].
+  rewrite removelast_last, app_length in Hr. cbn in Hr. lia.
+Qed.
+
+Lemma adj_cons_same i x q : x <> [] -> adj (i :: x) (i :: q) = option_map (cons i) (adj x q).
+Proof. intros Hx. destruct x as [|k x]; [congruence|]. cbn [adj]. rewrite Nat.eqb_refl. reflexivity. Qed.
+
+Lemma adj'_parent d : d <> [] -> adj' d (removelast d) = removelast d.
+Proof.
+  induction d as [|i d IH]; intros Hd; [congruence|]. destruct d as [|j d].
+  - reflexivity.
+  - change (removelast (i :: j :: d)) with (i :: removelast (j :: d)). unfold adj'.
+    rewrite adj_cons_same by discriminate.
+    specialize (IH ltac:(discriminate)). unfold adj' in IH.
+    destruct (adj (j :: d) (removelast (j :: d))) as [r|] eqn:E.
+    + cbn [option_map]. f_equal. exact IH.
+    + reflexivity.
+Qed.
+
+Lemma has_minus_self tb P : has (minus tb P) P = false.
+Proof.
+  unfold has, minus. apply existsb_false. intros r Hr. apply filter_In in Hr as [_ Hr].
+  destruct (at_path P r) eqn:E; [|reflexivity]. apply at_path_under in E. rewrite E in Hr. discriminate.
+Qed.
+
+Lemma not_pfx_not_prefix t p q PP PQ :
+  tpath t p = Some PP -> tpath t q = Some PQ -> pfx PP PQ = false -> is_prefix p q = false.
+Proof.
+  intros HP HQ Hn. destruct (is_prefix p q) eqn:E; [|reflexivity].
+  unfold tpath in *. rewrite (fpath_prefix_mono _ _ _ _ _ _ E HP HQ) in Hn. discriminate.
+Qed.
+
+Lemma removelast_pfx P : pfx (removelast P) P = true.
+Proof.
+  destruct P as [|a P] using rev_ind; [reflexivity|]. rewrite removelast_last. apply pfx_app.
+Qed.
+
+Record plain_override (c : cfg) : Prop := {
+  po_copy : c_copy c = false;
+  po_over : f_over (c_fl c) = true;
+  po_mc : f_mc (c_fl c) = false;
+  po_ml : f_ml (c_fl c) = false;
+  po_dc : f_dc (c_fl c) = false }.
+
+(* DESIGN.md "C08_override": neither node inside the other, equal names *)
+Theorem override_full c t p d x D PX PD :
+  plain_override c -> wf_t t ->
+  p <> [] -> d <> [] -> tget t p = Some x -> tget t d = Some D ->
+  tpath t p = Some PX -> tpath t d = Some PD ->
+  pfx PX PD = false -> pfx PD PX = false -> tname D = tname x ->
+  exists t2, cs_core c [t] (0 :: p) (TNode (0 :: d)) = ([t2; D], None) /\
+    rows t2 = insert_last (minus (minus (rows t) PD) PX) (removelast PD) (rows_from (removelast PD) x).
+Proof.
+  intros [Hc Hov Hmc Hml Hdc] Hwf Hp Hd Hx HD HPX HPD Hn1 Hn2 Hname.
+  assert (Hpd : is_prefix p d = false) by (eapply not_pfx_not_prefix; eassumption).
+  assert (Hdp : is_prefix d p = false) by (eapply not_pfx_not_prefix; eassumption).
+  set (t' := t_remove d t). set (p1 := adj' d p). set (q1 := removelast d). set (PQ := removelast PD).
+  assert (Hwf' : wf_t t') by (apply wf_t_remove; exact Hwf).
+  assert (HPQ : tpath t q1 = Some PQ) by (apply fpath_removelast; assumption).
+  assert (HPX' : tpath t' p1 = Some PX).
+  { unfold tpath, t', t_remove. rewrite tname_set_kids, tkids_set_kids. unfold p1.
+    unfold tget in HD. rewrite (fpath_adj _ _ _ _ _ HD Hdp). exact HPX. }
+  assert (HPQ' : tpath t' q1 = Some PQ).
+  { unfold tpath, t', t_remove. rewrite tname_set_kids, tkids_set_kids.
+    unfold q1. rewrite <- (adj'_parent d Hd). unfold tget in HD.
+    rewrite (fpath_adj _ _ _ _ _ HD (is_prefix_removelast_false d Hd)). exact HPQ. }
+  assert (Hx' : tget t' p1 = Some x).
+  { unfold tget, t', t_remove. rewrite tkids_set_kids. unfold p1. unfold tget in HD, Hx.
+    rewrite (fget_adj _ _ _ _ HD Hdp Hpd). exact Hx. }
+  assert (Hp1 : p1 <> []) by (apply adj'_nonempty; exact Hp).
+  assert (Hpq1 : is_prefix p1 q1 = false).
+  { eapply not_pfx_not_prefix; [exact HPX'|exact HPQ'|].
+    destruct (pfx PX PQ) eqn:E; [|reflexivity].
+    rewrite (pfx_trans _ _ _ E (removelast_pfx PD)) in Hn1. discriminate. }
+  destruct (fkids_of_fpath _ _ _ _ HPQ') as [ks Hks].
+  destruct (fget_rows _ _ _ _ _ (wf_t_kids _ Hwf) HD HPD) as [P0 [HP0 _]].
+  assert (HPDe : PD = PQ ++ [tname x]).
+  { unfold PQ. rewrite HP0, removelast_last, Hname. reflexivity. }
+  assert (Hfresh : forall k, In k ks -> tname k <> tname x).
+  { apply existsb_name_iff. rewrite <- (t_has_child t' q1 PQ ks (tname x) Hwf' HPQ' Hks).
+    unfold t'. rewrite (rows_t_remove t d PD Hwf Hd HPD), <- HPDe. apply has_minus_self. }
+  exists (t_move p1 q1 x t'). split.
+  - unfold cs_core.
+    replace (ref_eqb (0 :: p) (0 :: d)) with false.
+    2: { symmetry. unfold ref_eqb. cbn [list_eqb Nat.eqb andb]. destruct (list_eqb Nat.eqb p d) eqn:E; [|reflexivity].
+         assert (p = d).
+         { clear -E. revert d E. induction p as [|a p IH]; intros [|b d] E; cbn in E; try discriminate; [reflexivity|].
+           apply andb_true_iff in E as [E1 E2]. apply Nat.eqb_eq in E1. subst. f_equal. apply IH. exact E2. }
+         subst. rewrite is_prefix_refl in Hpd. discriminate. }
+    rewrite Hmc, Hml, Hov. cbn [negb]. unfold detach_to_parent.
+    pose proof (detach_in_tree (nroots c) t [] d D Hd HD) as Hm.
+    match goal with |- context [move ?a ?b ?c ?e] =>
+      replace (move a b c e) with (MvOk ((t_remove d t :: []) ++ [D]) (track (0 :: d) [1])) by (symmetry; exact Hm) end.
+    cbn [app].
+    assert (Hfr1 : track (0 :: d) [1] (0 :: p) = 0 :: p1).
+    { unfold track. rewrite is_prefix_cons. cbn [Nat.eqb andb]. rewrite Hdp. apply adj'_cons0; assumption. }
+    assert (Htn : option_map (track (0 :: d) [1]) (parent_ref (0 :: d)) = Some (0 :: q1)).
+    { destruct d as [|d0 d']; [congruence|]. cbn [parent_ref option_map].
+      change (removelast (0 :: d0 :: d')) with (0 :: removelast (d0 :: d')).
+      unfold track. rewrite is_prefix_cons. cbn [Nat.eqb andb].
+      rewrite (is_prefix_removelast_false (d0 :: d')) by discriminate.
+      rewrite adj'_cons0; [|discriminate|apply is_prefix_removelast_false; discriminate].
+      rewrite adj'_parent by discriminate. reflexivity. }
+    rewrite Hfr1, Htn.
+    apply (attach_plain_shift c t' [D] p1 q1 x ks); try assumption.
+    + split; assumption.
+    + exists PQ. exact HPQ'.
+  - rewrite (rows_t_move t' p1 q1 x PX PQ) by assumption.
+    unfold t'. rewrite (rows_t_remove t d PD Hwf Hd HPD). reflexivity.
+Qed.
+
+Theorem edit_cs_override fl t p d x D PX PD :
+  f_over fl = true -> f_mc fl = false -> f_ml fl = false -> f_dc fl = false ->
+  wf_t t -> p <> [] -> d <> [] -> tget t p = Some x -> tget t d = Some D ->
+  tpath t p = Some PX -> tpath t d = Some PD ->
+  pfx PX PD = false -> pfx PD PX = false -> tname D = tname x ->
+  let T' := insert_last (minus (minus (rows t) PD) PX) (removelast PD) (rows_from (removelast PD) x) in
+  edit_cs false true fl (rows t) (rows t) PX (Some PD) = PNext T' T'.
+Proof.
+  intros Hov Hmc Hml Hdc Hwf Hp Hd Hx HD HPX HPD Hn1 Hn2 Hname T'. set (PQ := removelast PD) in *.
+  destruct (t_sub_rows t p x PX Hwf Hp Hx HPX) as [P0 [HP0 Hsub]].
+  destruct (fget_rows _ _ _ _ _ (wf_t_kids _ Hwf) HD HPD) as [P0d [HP0d _]].
+  destruct (tpath_ext _ _ _ HPX) as [rest [HPe Hl]].
+  destruct (tpath_ext _ _ _ HPD) as [restd [HPde Hld]].
+  assert (Hk : length PX = S (length P0)) by (rewrite HP0, app_length; cbn; lia).
+  assert (Hk2 : Nat.eqb (length PX) 1 = false).
+  { apply Nat.eqb_neq. rewrite HPe. cbn [length]. destruct p; [congruence|cbn in Hl; lia]. }
+  assert (Hkd : Nat.eqb (length PD) 1 = false).
+  { apply Nat.eqb_neq. rewrite HPde. cbn [length]. destruct d; [congruence|cbn in Hld; lia]. }
+  assert (HPDe : PD = PQ ++ [tname x]).
+  { unfold PQ. rewrite HP0d, removelast_last, Hname. reflexivity. }
+  unfold edit_cs. rewrite Hk2. cbn [negb andb].
+  rewrite HP0 at 1. rewrite HP0d at 1. rewrite !last_last, Hname, str_eqb_refl. cbn [negb].
+  replace (path_eqb PD PX) with false.
+  2: { symmetry. destruct (path_eqb PD PX) eqn:E; [|reflexivity]. apply path_eqb_eq in E.
+       rewrite E, pfx_refl in Hn1. discriminate. }
+  rewrite Hn1. cbn [andb]. rewrite (t_has_row t d PD Hd HPD).
+  rewrite Hmc, Hml, Hov, Hdc, Hkd. cbn [negb andb].
+  cbn [attach_items]. unfold reroot. cbn [fst snd]. fold (sub_rows (rows t) PX). rewrite Hsub.
+  rewrite Hk. cbn [Nat.sub]. rewrite Nat.sub_0_r. fold PQ.
+  rewrite (reroot_rows_from x P0 PQ false). rewrite rows_from_eq at 1.
+  cbn [rpath fst].
+  replace (has (minus (minus (rows t) PD) PX) (PQ ++ [tname x])) with false.
+  2: { symmetry. rewrite <- HPDe. unfold minus at 1. apply has_filter_false. apply has_minus_self. }
+  rewrite <- rows_from_eq. reflexivity.
+Qed.
+
+(* ============================================================================================== *)
+(* Part 11.  The statements exported to Props/C08.v.                                               *)
+
+Definition cfg_same (copy : bool) (sep tsep : str) (fl : mflags) : cfg := CFG copy false sep tsep tsep fl.
+
+(* plain shift, destination absent *)
+Theorem C08_shift_paths_stmt sep tsep fl t p x comps PX :
+  f_mc fl = false -> f_ml fl = false -> f_dc fl = false -> wf_t t ->
+  p <> [] -> tget t p = Some x -> tpath t p = Some PX ->
+  (forall cc, In cc comps -> cc <> []) ->
+  pfx PX (tname t :: comps) = false ->
+  has (rows t) ((tname t :: comps) ++ [tname x]) = false ->
+  exists t2,
+    cs_core (cfg_same false sep tsep fl) [t] (0 :: p) (TNew comps) = ([t2], None)
+    /\ rows t2 = insert_last (minus (ensure (rows t) [tname t] comps) PX) (tname t :: comps)
+                             (rows_from (tname t :: comps) x)
+    /\ edit_cs false true fl (rows t) (rows t) PX (Some ((tname t :: comps) ++ [tname x])) = PNext (rows t2) (rows t2)
+    /\ subseq (minus (rows t) PX) (rows t2).
+Proof.
+  intros Hmc Hml Hdc Hwf Hp Hx HPX Hne Hn Habs.
+  destruct (shift_new_full (cfg_same false sep tsep fl) t p x comps PX) as [t2 [H1 H2]]; try assumption.
+  - split; assumption || reflexivity.
+  - reflexivity.
+  - exists t2. split; [exact H1|]. split; [exact H2|]. split.
+    + rewrite H2. apply (edit_cs_shift_new fl t p x comps PX); assumption.
+    + rewrite H2. apply untouched_shift.
+Qed.
+
+(* plain copy, destination absent *)
+Theorem C08_copy_keeps_source_stmt sep tsep fl t p x comps PX :
+  f_mc fl = false -> f_ml fl = false -> f_dc fl = false -> wf_t t ->
+  p <> [] -> tget t p = Some x -> tpath t p = Some PX ->
+  (forall cc, In cc comps -> cc <> []) ->
+  pfx PX (tname t :: comps) = false ->
+  has (rows t) ((tname t :: comps) ++ [tname x]) = false ->
+  exists t2 rest,
+    cs_core (cfg_same true sep tsep fl) [t] (0 :: p) (TNew comps) = (t2 :: rest, None)
+    /\ rows t2 = insert_last (ensure (rows t) [tname t] comps) (tname t :: comps)
+                             (rows_from (tname t :: comps) (retag x))
+    /\ edit_cs true true fl (rows t) (rows t) PX (Some ((tname t :: comps) ++ [tname x])) = PNext (rows t2) (rows t2)
+    /\ subseq (rows t) (rows t2).
+Proof.
+  intros Hmc Hml Hdc Hwf Hp Hx HPX Hne Hn Habs.
+  destruct (copy_new_full (cfg_same true sep tsep fl) t p x comps PX) as [t2 [rest [H1 H2]]]; try assumption.
+  - split; assumption || reflexivity.
+  - exists t2, rest. split; [exact H1|]. split; [exact H2|]. split.
+    + rewrite H2. apply (edit_cs_copy_new fl t p x comps PX); assumption.
+    + rewrite H2. apply untouched_copy.
+Qed.
+
+(* overriding *)
+Theorem C08_override_stmt sep tsep fl t p d x D PX PD :
+  f_over fl = true -> f_mc fl = false -> f_ml fl = false -> f_dc fl = false -> wf_t t ->
+  p <> [] -> d <> [] -> tget t p = Some x -> tget t d = Some D ->
+  tpath t p = Some PX -> tpath t d = Some PD ->
+  pfx PX PD = false -> pfx PD PX = false -> tname D = tname x ->
+  exists t2,
+    cs_core (cfg_same false sep tsep fl) [t] (0 :: p) (TNode (0 :: d)) = ([t2; D], None)
+    /\ rows t2 = insert_last (minus (minus (rows t) PD) PX) (removelast PD) (rows_from (removelast PD) x)
+    /\ edit_cs false true fl (rows t) (rows t) PX (Some PD) = PNext (rows t2) (rows t2)
+    /\ has (minus (rows t2) (removelast PD ++ [tname x])) PD = false
+    /\ subseq (minus (minus (rows t) PD) PX) (rows t2).
+Proof.
+  intros Hov Hmc Hml Hdc Hwf Hp Hd Hx HD HPX HPD Hn1 Hn2 Hname.
+  destruct (override_full (cfg_same false sep tsep fl) t p d x D PX PD) as [t2 [H1 H2]]; try assumption.
+  - split; assumption || reflexivity.
+  - exists t2. split; [exact H1|]. split; [exact H2|]. split; [|split].
+    + rewrite H2. apply (edit_cs_override fl t p d x D PX PD); assumption.
+    + destruct (fget_rows _ _ _ _ _ (wf_t_kids _ Hwf) HD HPD) as [P0d [HP0d _]].
+      assert (E : removelast PD ++ [tname x] = PD) by (rewrite HP0d, removelast_last, Hname; reflexivity).
+      rewrite E. apply has_minus_self.
+    + rewrite H2. apply subseq_insert_last.
+Qed.
+
+(* deletion *)
+Theorem C08_delete_stmt sep tsep fl t p x PX :
+  f_mc fl = false -> f_ml fl = false -> f_dc fl = false -> wf_t t ->
+  p <> [] -> tget t p = Some x -> tpath t p = Some PX ->
+  exists t2,
+    cs_core (cfg_same false sep tsep fl) [t] (0 :: p) TDel = ([t2; x], None)
+    /\ rows t2 = minus (rows t) PX
+    /\ edit_cs false true fl (rows t) (rows t) PX None = PNext (rows t2) (rows t2)
+    /\ has (rows t2) PX = false
+    /\ subseq (rows t2) (rows t).
+Proof.
+  intros Hmc Hml Hdc Hwf Hp Hx HPX. exists (t_remove p t).
+  assert (Hr : rows (t_remove p t) = minus (rows t) PX) by (apply rows_t_remove; assumption).
+  split; [apply delete_core; [split; assumption || reflexivity|exact Hp|exact Hx]|].
+  split; [exact Hr|]. split; [|split].
+  - rewrite Hr. apply (edit_cs_delete fl t p PX); assumption.
+  - rewrite Hr. apply has_minus_self.
+  - rewrite Hr. apply subseq_filter.
+Qed.
+
+(* a decision procedure for wf_t, used by the non-vacuity examples *)
+Fixpoint nodup_names (l : list str) : bool :=
+  match l with [] => true | x :: r => negb (existsb (str_eqb x) r) && nodup_names r end.
+Fixpoint wf_tb (t : tree) : bool :=
+  match t with T _ _ _ ks => nodup_names (map tname ks) && forallb wf_tb ks end.
+
+Lemma nodup_names_sound l : nodup_names l = true -> NoDup l.
+Proof.
+  induction l as [|x l IH]; cbn; intros H; [constructor|]. apply andb_true_iff in H as [H1 H2].
+  constructor; [|apply IH; exact H2]. intros Hin. apply negb_true_iff in H1.
+  assert (existsb (str_eqb x) l = true) by (eapply existsb_true; [exact Hin|apply str_eqb_refl]). congruence.
+Qed.
+
+Lemma wf_tb_sound t : wf_tb t = true -> wf_t t.
+Proof.
+  induction t as [g n a ks IH] using tree_ind'. cbn [wf_tb]. intros H. apply andb_true_iff in H as [H1 H2].
+  constructor; [apply nodup_names_sound; exact H1|].
+  rewrite Forall_forall in *. intros k Hk. apply IH; [exact Hk|].
+  rewrite forallb_forall in H2. apply H2. exact Hk.
+Qed.
+
+(* ============================================================================================== *)
+(* Part 12.  delete_children: `del from_node.children` followed by the plain attach.               *)
+
+(* set the children list of the node at p *)
+Fixpoint fsetk (p : ref) (ks : list tree) (f : forest) : forest :=
+  match p with
+  | [] => ks
+  | i :: p' => upd_nth i (fun t => set_kids t (fsetk p' ks (tkids t))) f
+  end.
+
+Lemma set_kids_id t : set_kids t (tkids t) = t.
+Proof. destruct t; reflexivity. Qed.
+
+Lemma upd_nth_id {A} (g : A -> A) (l : list A) i x : nth_error l i = Some x -> g x = x -> upd_nth i g l = l.
+Proof.
+  revert i; induction l as [|y l IH]; intros i H Hg; [reflexivity|]. destruct i; cbn in *.
+  - inversion H; subst. rewrite Hg. reflexivity.
+  - rewrite (IH _ H Hg). reflexivity.
+Qed.
+
+Lemma fsetk_id p : forall (f : forest) ks, fkids p f = Some ks -> fsetk p ks f = f.
+Proof.
+  induction p as [|i p IH]; intros f ks H; cbn in *; [inversion H; reflexivity|].
+  destruct (nth_error f i) as [t|] eqn:Et; [|discriminate].
+  eapply upd_nth_id; [exact Et|]. rewrite (IH _ _ H). apply set_kids_id.
+Qed.
+
+Lemma upd_nth_upd_nth {A} (g h : A -> A) (l : list A) i :
+  upd_nth i g (upd_nth i h l) = upd_nth i (fun x => g (h x)) l.
+Proof. revert i; induction l as [|y l IH]; intros [|i]; cbn; try reflexivity. rewrite IH. reflexivity. Qed.
+
+Lemma upd_nth_ext {A} (g h : A -> A) (l : list A) i : (forall x, g x = h x) -> upd_nth i g l = upd_nth i h l.
+Proof. intros E. revert i; induction l as [|y l IH]; intros [|i]; cbn; try reflexivity; [rewrite E|rewrite IH]; reflexivity. Qed.
+
+Lemma set_kids_set_kids t a b : set_kids (set_kids t a) b = set_kids t b.
+Proof. destruct t; reflexivity. Qed.
+
+Lemma fremove_cons_ne i p' (f : forest) :
+  p' <> [] -> fremove (i :: p') f = upd_nth i (fun t => set_kids t (fremove p' (tkids t))) f.
+Proof. intros H. destruct p'; [congruence|reflexivity]. Qed.
+
+(* removing the first child of the node at p *)
+Lemma fremove_first_child p : forall (f : forest) k0 ks,
+  fremove (p ++ [0]) (fsetk p (k0 :: ks) f) = fsetk p ks f.
+Proof.
+  induction p as [|i p IH]; intros f k0 ks; [reflexivity|].
+  cbn [app fsetk]. rewrite fremove_cons_ne by (destruct p; discriminate).
+  rewrite upd_nth_upd_nth. apply upd_nth_ext. intros t. rewrite set_kids_set_kids, tkids_set_kids, IH. reflexivity.
+Qed.
+
+Lemma fget_first_child p : forall (f : forest) k0 ks P pre,
+  fpath pre p f = Some P -> p <> [] -> fget (p ++ [0]) (fsetk p (k0 :: ks) f) = Some k0.
+Proof.
+  induction p as [|i p IH]; intros f k0 ks P pre HP Hp; [congruence|].
+  cbn [fpath] in HP. destruct (nth_error f i) as [t|] eqn:Et; [|discriminate].
+  cbn [app fsetk fget]. rewrite nth_error_upd_nth, Nat.eqb_refl, Et. cbn [option_map].
+  rewrite tkids_set_kids. destruct p as [|j p]; [reflexivity|].
+  cbn [app]. change (j :: p ++ [0]) with ((j :: p) ++ [0]). eapply IH; [exact HP|discriminate].
+Qed.
+
+Lemma length_fsetk p ks (f : forest) : p <> [] -> length (fsetk p ks f) = length f.
+Proof. intros Hp. destruct p; [congruence|]. cbn. apply length_upd_nth. Qed.
+
+(* del x.children on the tree object's piece: every child becomes a piece of its own, in order *)
+Lemma del_children_go_spec nr ks : forall (t : tree) rest p done trk,
+  p <> [] -> (exists P, tpath t p = Some P) ->
+  exists trk',
+    del_children_go nr (length ks) (set_kids t (fsetk p ks (tkids t)) :: rest ++ done) (0 :: p) trk
+    = MvOk (set_kids t (fsetk p [] (tkids t)) :: rest ++ done ++ ks) trk'.
+Proof.
+  induction ks as [|k0 ks IH]; intros t rest p done trk Hp [P HP].
+  - exists trk. cbn. rewrite app_nil_r. reflexivity.
+  - cbn [length del_children_go].
+    set (t1 := set_kids t (fsetk p (k0 :: ks) (tkids t))).
+    assert (Hg : tget t1 (p ++ [0]) = Some k0).
+    { unfold tget, t1. rewrite tkids_set_kids. eapply fget_first_child; [exact HP|exact Hp]. }
+    assert (Hne : p ++ [0] <> []) by (destruct p; discriminate).
+    pose proof (detach_in_tree nr t1 (rest ++ done) (p ++ [0]) k0 Hne Hg) as Hm.
+    change ((0 :: p) ++ [0]) with (0 :: p ++ [0]).
+    match goal with |- context [move ?a ?b ?c ?e] =>
+      replace (move a b c e) with
+        (MvOk ((t_remove (p ++ [0]) t1 :: rest ++ done) ++ [k0]) (track (0 :: p ++ [0]) [S (length (rest ++ done))]))
+        by (symmetry; exact Hm) end.
+    assert (Ht1 : t_remove (p ++ [0]) t1 = set_kids t (fsetk p ks (tkids t))).
+    { unfold t_remove, t1. rewrite set_kids_set_kids, tkids_set_kids, fremove_first_child. reflexivity. }
+    rewrite Ht1. cbn [app]. rewrite <- app_assoc.
+    destruct (IH t rest p (done ++ [k0]) (fun z => track (0 :: p ++ [0]) [S (length (rest ++ done))] (trk z)) Hp
+                 (ex_intro _ P HP)) as [trk' Hgo].
+    exists trk'. rewrite Hgo. rewrite <- !app_assoc. reflexivity.
+Qed.
+
+Lemma sunder_long P r : length (rpath r) < length P -> sunder P r = false.
+Proof. intros H. unfold sunder. rewrite pfx_long by exact H. reflexivity. Qed.
+
+Lemma frows_fsetk_nil : forall p pre (f : forest) P,
+  wf_f f -> p <> [] -> fpath pre p f = Some P ->
+  frows pre (fsetk p [] f) = minus_strict (frows pre f) P.
+Proof.
+  induction p as [|i p IH]; intros pre f P Hwf Hp HP; [congruence|].
+  cbn [fpath] in HP. destruct (nth_error f i) as [t|] eqn:Et; [|discriminate].
+  apply nth_error_split_at in Et as [a [b [-> <-]]].
+  apply wf_f_mid in Hwf as [Ht [Hab Hne]].
+  unfold minus_strict. rewrite !frows_app, frows_cons, !filter_app.
+  destruct (fpath_ext _ _ _ _ HP) as [rest [HPe Hrl]]. rewrite <- app_assoc in HPe. cbn [app] in HPe.
+  assert (Hsu : forall r, under P r = false -> negb (sunder P r) = true).
+  { intros r Hr. unfold sunder. unfold under in Hr. rewrite Hr. reflexivity. }
+  assert (Ha : filter (fun r => negb (sunder P r)) (frows pre a) = frows pre a).
+  { apply filter_all. intros r Hr. apply Hsu. rewrite HPe.
+    eapply frows_other_not_under; [|exact Hr]. intros u Hu. apply Hne. apply in_or_app. left; exact Hu. }
+  assert (Hb : filter (fun r => negb (sunder P r)) (frows pre b) = frows pre b).
+  { apply filter_all. intros r Hr. apply Hsu. rewrite HPe.
+    eapply frows_other_not_under; [|exact Hr]. intros u Hu. apply Hne. apply in_or_app. right; exact Hu. }
+  rewrite Ha, Hb. cbn [fsetk]. rewrite upd_nth_mid, frows_app, frows_cons. f_equal. f_equal.
+  rewrite (rows_from_eq pre (set_kids t _)), (rows_from_eq pre t), tname_set_kids, ttag_set_kids, tattrs_set_kids,
+    tkids_set_kids.
+  cbn [filter]. destruct p as [|j p].
+  - cbn in HP. inversion HP; subst P. cbn [fsetk frows flat_map].
+    unfold sunder at 1. cbn [rpath fst]. rewrite path_eqb_refl, andb_false_r. cbn [negb]. f_equal.
+    symmetry. apply filter_none. intros r Hr. apply frows_under in Hr as [u [rs [_ Hrs]]].
+    unfold sunder. rewrite Hrs.
+    replace (pre ++ [tname t]) with ((pre ++ [tname t]) ++ []) at 1 by apply app_nil_r.
+    rewrite pfx_app_same. cbn [pfx andb].
+    replace (path_eqb (pre ++ [tname t]) ((pre ++ [tname t]) ++ tname u :: rs)) with false; [reflexivity|].
+    symmetry. destruct (path_eqb _ _) eqn:E; [|reflexivity]. apply path_eqb_eq in E.
+    apply (f_equal (@length str)) in E. rewrite !app_length in E. cbn in E. lia.
+  - rewrite sunder_long by (cbn [rpath fst]; rewrite HPe, !app_length; cbn [length] in *; lia). cbn [negb]. f_equal.
+    apply IH; [apply wf_t_kids; exact Ht|discriminate|exact HP].
+Qed.
+
+Lemma fpath_fsetk p : forall z pre (f : forest) ks,
+  is_prefix p z = false \/ z = p -> fpath pre z (fsetk p ks f) = fpath pre z f.
+Proof.
+  induction p as [|i p IH]; intros z pre f ks Hz.
+  - destruct Hz as [Hz| ->]; [discriminate|reflexivity].
+  - destruct z as [|j z]; [reflexivity|]. cbn [fsetk fpath]. rewrite nth_error_upd_nth.
+    destruct (Nat.eqb j i) eqn:E; [|reflexivity]. apply Nat.eqb_eq in E. subst j.
+    destruct (nth_error f i) as [t|]; [|reflexivity]. cbn [option_map]. rewrite tname_set_kids, tkids_set_kids.
+    apply IH. destruct Hz as [Hz|Hz].
+    + left. rewrite is_prefix_cons, Nat.eqb_refl in Hz. exact Hz.
+    + right. inversion Hz. reflexivity.
+Qed.
+
+Lemma fget_fsetk_self p : forall (f : forest) ks x, fget p f = Some x -> fget p (fsetk p ks f) = Some (set_kids x ks).
+Proof.
+  induction p as [|i p IH]; intros f ks x H; [discriminate|]. cbn [fget fsetk] in *.
+  rewrite nth_error_upd_nth, Nat.eqb_refl. destruct (nth_error f i) as [t|]; [|discriminate]. cbn [option_map].
+  destruct p as [|j p].
+  - inversion H; subst. reflexivity.
+  - rewrite tkids_set_kids. apply IH. exact H.
+Qed.
+
+Lemma wf_fsetk_nil p : forall (f : forest), wf_f f -> wf_f (fsetk p [] f).
+Proof.
+  induction p as [|i p IH]; intros f [Hn Hf]; cbn [fsetk]; [split; constructor|]. split.
+  - rewrite map_tname_upd_nth; [exact Hn|intros; apply tname_set_kids].
+  - apply Forall_upd_nth; [|exact Hf]. intros t Ht. apply wf_t_set_kids. apply IH. apply wf_t_kids. exact Ht.
+Qed.
+
+Definition t_strip (p : ref) (t : tree) : tree := set_kids t (fsetk p [] (tkids t)).
+
+Lemma rows_t_strip t p PX :
+  wf_t t -> p <> [] -> tpath t p = Some PX -> rows (t_strip p t) = minus_strict (rows t) PX.
+Proof.
+  intros Hwf Hp HP. unfold t_strip. rewrite !rows_eq, tname_set_kids, ttag_set_kids, tattrs_set_kids, tkids_set_kids.
+  unfold minus_strict. cbn [filter]. destruct (tpath_ext _ _ _ HP) as [rest [HPe Hl]].
+  rewrite sunder_long by (cbn [rpath fst]; rewrite HPe; cbn [length]; destruct p; [congruence|cbn in Hl; lia]).
+  cbn [negb]. f_equal. apply frows_fsetk_nil; [apply wf_t_kids; exact Hwf|exact Hp|exact HP].
+Qed.
+
+Lemma adj'_child_removed p : forall z i, is_prefix p z = false \/ z = p -> adj' (p ++ [i]) z = z.
+Proof.
+  induction p as [|a p IH]; intros z i Hz.
+  - destruct Hz as [Hz| ->]; [discriminate|reflexivity].
+  - destruct z as [|b z]; [unfold adj'; cbn; destruct (p ++ [i]); reflexivity|].
+    cbn [app]. unfold adj'. cbn [adj]. destruct (p ++ [i]) eqn:E; [destruct p; discriminate|]. rewrite <- E.
+    destruct (Nat.eqb b a) eqn:Eb; [|reflexivity]. apply Nat.eqb_eq in Eb. subst b.
+    assert (Hz' : is_prefix p z = false \/ z = p).
+    { destruct Hz as [Hz|Hz]; [left; rewrite is_prefix_cons, Nat.eqb_refl in Hz; exact Hz|right; inversion Hz; reflexivity]. }
+    specialize (IH z i Hz'). unfold adj' in IH. destruct (adj (p ++ [i]) z); cbn [option_map]; [rewrite IH|]; reflexivity.
+Qed.
+
+Lemma is_prefix_child_false p z i : is_prefix p z = false \/ z = p -> is_prefix (p ++ [i]) z = false.
+Proof.
+  intros Hz. destruct (is_prefix (p ++ [i]) z) eqn:E; [|reflexivity].
+  apply is_prefix_iff in E as [r ->]. destruct Hz as [Hz|Hz].
+  - rewrite <- app_assoc, is_prefix_app in Hz. discriminate.
+  - apply (f_equal (@length nat)) in Hz. rewrite !app_length in Hz. cbn in Hz. lia.
+Qed.
+
+(* the trackers of del_children leave alone every reference into piece 0 that is not strictly below p *)
+Lemma del_children_go_track nr ks : forall (t : tree) rest p done trk trk',
+  p <> [] -> (exists P, tpath t p = Some P) ->
+  del_children_go nr (length ks) (set_kids t (fsetk p ks (tkids t)) :: rest ++ done) (0 :: p) trk = MvOk
+    (set_kids t (fsetk p [] (tkids t)) :: rest ++ done ++ ks) trk' ->
+  forall z, (is_prefix p z = false \/ z = p) -> trk (0 :: z) = 0 :: z -> trk' (0 :: z) = 0 :: z.
+Proof.
+  induction ks as [|k0 ks IH]; intros t rest p done trk trk' Hp [P HP] Hgo z Hz Htz.
+  - cbn in Hgo. inversion Hgo; subst. exact Htz.
+  - cbn [length del_children_go] in Hgo.
+    set (t1 := set_kids t (fsetk p (k0 :: ks) (tkids t))) in *.
+    assert (Hg : tget t1 (p ++ [0]) = Some k0).
+    { unfold tget, t1. rewrite tkids_set_kids. eapply fget_first_child; [exact HP|exact Hp]. }
+    assert (Hne : p ++ [0] <> []) by (destruct p; discriminate).
+    pose proof (detach_in_tree nr t1 (rest ++ done) (p ++ [0]) k0 Hne Hg) as Hm.
+    change ((0 :: p) ++ [0]) with (0 :: p ++ [0]) in Hgo.
+    match type of Hgo with context [move ?a ?b ?c ?e] =>
+      replace (move a b c e) with
+        (MvOk ((t_remove (p ++ [0]) t1 :: rest ++ done) ++ [k0]) (track (0 :: p ++ [0]) [S (length (rest ++ done))]))
+        in Hgo by (symmetry; exact Hm) end.
+    assert (Ht1 : t_remove (p ++ [0]) t1 = set_kids t (fsetk p ks (tkids t))).
+    { unfold t_remove, t1. rewrite set_kids_set_kids, tkids_set_kids, fremove_first_child. reflexivity. }
+    rewrite Ht1 in Hgo. cbn [app] in Hgo. rewrite <- app_assoc in Hgo.
+    eapply (IH t rest p (done ++ [k0])); [exact Hp|exists P; exact HP| |exact Hz|].
+    + rewrite <- !app_assoc. cbn [app]. exact Hgo.
+    + cbn beta. rewrite Htz. unfold track. rewrite is_prefix_cons. cbn [Nat.eqb andb].
+      rewrite (is_prefix_child_false p z 0 Hz).
+      rewrite adj'_cons0; [|exact Hne|apply is_prefix_child_false; exact Hz].
+      rewrite adj'_child_removed by exact Hz. reflexivity.
+Qed.
+
+Record dc_shift (c : cfg) : Prop := {
+  ds_copy : c_copy c = false;
+  ds_mc : f_mc (c_fl c) = false;
+  ds_ml : f_ml (c_fl c) = false;
+  ds_dc : f_dc (c_fl c) = true }.
+
+Lemma tname_set_kids' x ks : tname (set_kids x ks) = tname x.
+Proof. apply tname_set_kids. Qed.
+
+(* del from_node.children; from_node.parent = to_node *)
+Lemma attach_dc_shift c t rest p q x kq :
+  dc_shift c ->
+  p <> [] -> tget t p = Some x -> (exists PX, tpath t p = Some PX) -> is_prefix p q = false ->
+  fkids q (tkids (t_strip p t)) = Some kq -> (forall k, In k kq -> tname k <> tname x) ->
+  (exists PQ, tpath (t_strip p t) q = Some PQ) ->
+  attach c false (t :: rest) (0 :: p) (Some (0 :: q))
+  = (t_move p q (set_kids x []) (t_strip p t) :: rest ++ tkids x, None).
+Proof.
+  intros [Hc Hmc Hml Hdc] Hp Hx HPX Hpq Hkq Hfresh HPQ. unfold attach. rewrite Hc, Hml, Hdc. cbn [orb andb].
+  unfold del_children. rewrite fkids_cons0.
+  assert (Hks : fkids p (tkids t) = Some (tkids x)).
+  { rewrite fkids_fget by exact Hp. unfold tget in Hx. rewrite Hx. reflexivity. }
+  rewrite Hks.
+  destruct (del_children_go_spec (nroots c) (tkids x) t rest p [] (fun z => z) Hp HPX) as [trk' Hgo].
+  pose proof (del_children_go_track (nroots c) (tkids x) t rest p [] (fun z => z) trk' Hp HPX Hgo) as Htrk.
+  rewrite (fsetk_id p _ _ Hks), set_kids_id, app_nil_r in Hgo. cbn [app] in Hgo.
+  match goal with |- context [del_children_go ?a ?b ?c0 ?d ?e] =>
+    replace (del_children_go a b c0 d e) with (MvOk (t_strip p t :: rest ++ tkids x) trk') by (symmetry; exact Hgo) end.
+  rewrite (Htrk p (or_intror eq_refl) eq_refl). cbn [option_map].
+  rewrite (Htrk q (or_introl Hpq) eq_refl).
+  assert (Hx' : tget (t_strip p t) p = Some (set_kids x [])).
+  { unfold tget, t_strip. rewrite tkids_set_kids. apply fget_fsetk_self. exact Hx. }
+  destruct (move_in_tree (nroots c) (t_strip p t) (rest ++ tkids x) p q (set_kids x []) kq Hp Hx' Hpq Hkq)
+    as [trk2 Hm]; [rewrite tname_set_kids; exact Hfresh|exact HPQ|].
+  match goal with |- context [move ?a ?b ?c0 ?d] =>
+    replace (move a b c0 d) with (MvOk (t_move p q (set_kids x []) (t_strip p t) :: rest ++ tkids x) trk2)
+      by (symmetry; exact Hm) end.
+  reflexivity.
+Qed.
+
+Lemma minus_minus_strict tb P : minus (minus_strict tb P) P = minus tb P.
+Proof.
+  unfold minus, minus_strict. induction tb as [|r tb IH]; cbn; [reflexivity|].
+  unfold sunder at 1. unfold under at 2. destruct (pfx P (rpath r)) eqn:E; cbn [andb negb].
+  - destruct (path_eqb P (rpath r)); cbn [negb filter]; [unfold under at 1; rewrite E; cbn [negb]|]; exact IH.
+  - cbn [filter]. unfold under at 1. rewrite E. cbn [negb]. rewrite IH. reflexivity.
+Qed.
+
+Lemma filter_at_path_sub (tb : table) P : filter (at_path P) tb = filter (at_path P) (filter (under P) tb).
+Proof.
+  induction tb as [|r tb IH]; cbn; [reflexivity|]. destruct (at_path P r) eqn:Ea.
+  - rewrite (at_path_under _ _ Ea). cbn [filter]. rewrite Ea, IH. reflexivity.
+  - destruct (under P r); cbn [filter]; [rewrite Ea|]; exact IH.
+Qed.
+
+Lemma t_row_at t p x PX :
+  wf_t t -> p <> [] -> tget t p = Some x -> tpath t p = Some PX ->
+  filter (at_path PX) (rows t) = [(PX, ttag x, tattrs x)].
+Proof.
+  intros Hwf Hp Hx HP. destruct (t_sub_rows t p x PX Hwf Hp Hx HP) as [P0 [HP0 Hsub]].
+  rewrite (filter_at_path_sub (rows t) PX). fold (sub_rows (rows t) PX). rewrite Hsub, rows_from_eq, <- HP0. cbn [filter]. unfold at_path at 1. cbn [rpath fst].
+  rewrite path_eqb_refl. f_equal. apply filter_none. intros r Hr.
+  apply frows_under in Hr as [u [rs [_ Hrs]]]. unfold at_path. rewrite Hrs.
+  destruct (path_eqb PX (PX ++ tname u :: rs)) eqn:E2; [|reflexivity]. apply path_eqb_eq in E2.
+  apply (f_equal (@length str)) in E2. rewrite app_length in E2. cbn in E2. lia.
+Qed.
+
+(* DESIGN.md "C08_delete_children": shift with delete_children, destination absent: the bare node (same
+   object, same attributes) becomes the last child of the destination parent; all rows at or below the
+   source path are gone from where they were. *)
+Theorem C08_delete_children_stmt sep tsep fl t p x comps PX :
+  f_mc fl = false -> f_ml fl = false -> f_dc fl = true -> wf_t t ->
+  p <> [] -> tget t p = Some x -> tpath t p = Some PX ->
+  (forall cc, In cc comps -> cc <> []) ->
+  pfx PX (tname t :: comps) = false ->
+  has (rows t) ((tname t :: comps) ++ [tname x]) = false ->
+  exists t2 rest,
+    cs_core (cfg_same false sep tsep fl) [t] (0 :: p) (TNew comps) = (t2 :: rest, None)
+    /\ rows t2 = insert_last (minus (ensure (rows t) [tname t] comps) PX) (tname t :: comps)
+                             [((tname t :: comps) ++ [tname x], ttag x, tattrs x)]
+    /\ edit_cs false true fl (rows t) (rows t) PX (Some ((tname t :: comps) ++ [tname x])) = PNext (rows t2) (rows t2)
+    /\ subseq (minus (rows t) PX) (rows t2).
+Proof.
+  intros Hmc Hml Hdc Hwf Hp Hx HPX Hne Hnotin Habs. set (Q := tname t :: comps) in *.
+  set (c := cfg_same false sep tsep fl).
+  destruct (add_walk_spec comps [t] [0] [] [tname t] (wf_f_single _ Hwf) ltac:(discriminate) eq_refl Hne)
+    as [f' [q [Ha [Hwf' [Hlen [Hrows [Hq [Hpre [Hfr1 Hfr2]]]]]]]]].
+  destruct (forest1 f' Hlen) as [t1 ->].
+  destruct q as [|q0 q]; [discriminate|]. cbn [is_prefix] in Hpre. rewrite andb_true_r in Hpre.
+  apply Nat.eqb_eq in Hpre. subst q0.
+  assert (Hwf1 : wf_t t1) by (destruct Hwf' as [_ Hf]; inversion Hf; assumption).
+  assert (Hr1 : rows t1 = ensure (rows t) [tname t] comps).
+  { unfold frows in Hrows. cbn [flat_map] in Hrows. rewrite !app_nil_r in Hrows. exact Hrows. }
+  assert (HQ1 : tpath t1 q = Some Q) by exact Hq.
+  assert (HPX1 : tpath t1 p = Some PX) by exact (Hfr2 (0 :: p) PX HPX).
+  assert (Hpq : is_prefix p q = false).
+  { destruct (is_prefix p q) eqn:E; [|reflexivity].
+    rewrite (fpath_prefix_mono _ _ _ _ _ _ E HPX1 HQ1) in Hnotin. discriminate. }
+  assert (Hx1 : tget t1 p = Some x).
+  { unfold tget. rewrite <- (fget_cons0 p t1 []) by exact Hp. apply Hfr1.
+    - rewrite is_prefix_cons. cbn. exact Hpq.
+    - rewrite fget_cons0 by exact Hp. exact Hx. }
+  set (t' := t_strip p t1).
+  assert (Hwf2 : wf_t t') by (apply wf_t_set_kids, wf_fsetk_nil, wf_t_kids; exact Hwf1).
+  assert (HQ2 : tpath t' q = Some Q).
+  { unfold tpath, t', t_strip. rewrite tname_set_kids, tkids_set_kids, fpath_fsetk by (left; exact Hpq). exact HQ1. }
+  assert (HPX2 : tpath t' p = Some PX).
+  { unfold tpath, t', t_strip. rewrite tname_set_kids, tkids_set_kids, fpath_fsetk by (right; reflexivity). exact HPX1. }
+  assert (Hr2 : rows t' = minus_strict (rows t1) PX) by (apply rows_t_strip; assumption).
+  destruct (fkids_of_fpath _ _ _ _ HQ2) as [kq Hkq].
+  assert (Hfresh : forall k, In k kq -> tname k <> tname x).
+  { apply existsb_name_iff. rewrite <- (t_has_child t' q Q kq (tname x) Hwf2 HQ2 Hkq).
+    rewrite Hr2. unfold minus_strict. apply has_filter_false.
+    rewrite Hr1, has_ensure_long; [exact Habs|]. unfold Q. rewrite app_length. cbn [length]. lia. }
+  assert (Hx2 : tget t' p = Some (set_kids x [])).
+  { unfold tget, t', t_strip. rewrite tkids_set_kids. apply fget_fsetk_self. exact Hx1. }
+  assert (Hrows2 : rows (t_move p q (set_kids x []) t')
+                   = insert_last (minus (ensure (rows t) [tname t] comps) PX) Q [(Q ++ [tname x], ttag x, tattrs x)]).
+  { rewrite (rows_t_move t' p q (set_kids x []) PX Q) by assumption.
+    rewrite Hr2, minus_minus_strict, Hr1. rewrite rows_from_eq, tname_set_kids, ttag_set_kids, tattrs_set_kids,
+      tkids_set_kids. reflexivity. }
+  exists (t_move p q (set_kids x []) t'), ([] ++ tkids x). split; [|split; [exact Hrows2|split]].
+  - unfold cs_core. change (dpiece c) with 0. rewrite Ha. change (f_mc (c_fl c)) with (f_mc fl). rewrite Hmc.
+    apply (attach_dc_shift c t1 [] p q x kq); try assumption.
+    + split; assumption || reflexivity.
+    + exists PX. exact HPX1.
+    + exists Q. exact HQ2.
+  - rewrite Hrows2.
+    destruct (t_sub_rows t p x PX Hwf Hp Hx HPX) as [P0 [HP0 Hsub]].
+    destruct (tpath_ext _ _ _ HPX) as [rest0 [HPe Hl]].
+    assert (Hk : length PX = S (length P0)) by (rewrite HP0, app_length; cbn; lia).
+    assert (Hk2 : Nat.eqb (length PX) 1 = false).
+    { apply Nat.eqb_neq. rewrite HPe. cbn [length]. destruct p; [congruence|cbn in Hl; lia]. }
+    assert (Hneq : PX <> Q ++ [tname x]).
+    { intros E. rewrite <- E in Habs. rewrite (t_has_row t p PX Hp HPX) in Habs. discriminate. }
+    unfold edit_cs. rewrite Hk2. cbn [negb andb].
+    rewrite removelast_last, !last_last. rewrite HP0 at 1. rewrite last_last, str_eqb_refl. cbn [negb].
+    replace (path_eqb (Q ++ [tname x]) PX) with false.
+    2: { symmetry. destruct (path_eqb (Q ++ [tname x]) PX) eqn:E; [|reflexivity]. apply path_eqb_eq in E. congruence. }
+    rewrite (pfx_snoc_false PX Q (tname x) Hnotin Hneq). cbn [andb]. rewrite Habs.
+    replace (Nat.ltb (length (Q ++ [tname x])) 2) with false.
+    2: { symmetry. apply Nat.ltb_ge. rewrite app_length. unfold Q. cbn [length]. lia. }
+    rewrite Hmc, Hml, Hdc.
+    assert (He : ensure (rows t) [] Q = ensure (rows t) [tname t] comps).
+    { unfold Q. cbn [ensure app]. rewrite has_root. reflexivity. }
+    rewrite He. cbn [attach_items]. unfold reroot. cbn [fst snd].
+    rewrite (t_row_at t p x PX Hwf Hp Hx HPX). cbn [map rpath rtag rattrs fst snd].
+    rewrite Hk. cbn [Nat.sub]. rewrite Nat.sub_0_r.
+    replace (skipn (length P0) PX) with [tname x] by (rewrite HP0, skipn_app_exact; reflexivity).
+    unfold minus at 1. rewrite has_filter_false.
+    2: { rewrite has_ensure_long; [exact Habs|]. unfold Q. rewrite app_length. cbn [length]. lia. }
+    reflexivity.
+  - rewrite Hrows2. apply untouched_shift.
+Qed.
